@@ -1,0 +1,5664 @@
+	.file	"test_abnorm.c"
+	.text
+.Ltext0:
+	.file 0 "/repo/aldor/aldor/src" "test/test_abnorm.c"
+	.section	.rodata
+.LC0:
+	.string	"testDocco"
+	.text
+	.globl	abnormTest
+	.type	abnormTest, @function
+abnormTest:
+.LFB0:
+	.file 1 "test/test_abnorm.c"
+	.loc 1 12 1
+	.cfi_startproc
+	pushq	%rbp
+	.cfi_def_cfa_offset 16
+	.cfi_offset 6, -16
+	movq	%rsp, %rbp
+	.cfi_def_cfa_register 6
+	.loc 1 13 2
+	call	init@PLT
+	.loc 1 14 2
+	leaq	testDocco(%rip), %rax
+	movq	%rax, %rsi
+	leaq	.LC0(%rip), %rax
+	movq	%rax, %rdi
+	call	showTest@PLT
+	.loc 1 15 2
+	call	fini@PLT
+	.loc 1 16 1
+	nop
+	popq	%rbp
+	.cfi_def_cfa 7, 8
+	ret
+	.cfi_endproc
+.LFE0:
+	.size	abnormTest, .-abnormTest
+	.section	.rodata
+.LC1:
+	.string	"  ++ more words"
+.LC2:
+	.string	"a: B;"
+.LC3:
+	.string	"+++ Words"
+.LC4:
+	.string	"an id"
+.LC5:
+	.string	" Words\n more words\n"
+.LC6:
+	.string	"docs"
+.LC7:
+	.string	"  ++ some words"
+.LC8:
+	.string	" some words\n"
+.LC9:
+	.string	"+++ ZZZ"
+.LC10:
+	.string	" ZZZ\n"
+	.text
+	.type	testDocco, @function
+testDocco:
+.LFB1:
+	.loc 1 20 1
+	.cfi_startproc
+	pushq	%rbp
+	.cfi_def_cfa_offset 16
+	.cfi_offset 6, -16
+	movq	%rsp, %rbp
+	.cfi_def_cfa_register 6
+	subq	$16, %rsp
+	.loc 1 23 2
+	call	initFile@PLT
+	.loc 1 25 28
+	movq	String_listPointer(%rip), %rax
+	movq	16(%rax), %r8
+	leaq	.LC1(%rip), %rax
+	movq	%rax, %rcx
+	leaq	.LC2(%rip), %rax
+	movq	%rax, %rdx
+	leaq	.LC3(%rip), %rax
+	movq	%rax, %rsi
+	movl	$3, %edi
+	movl	$0, %eax
+	call	*%r8
+.LVL0:
+	movq	%rax, -8(%rbp)
+	.loc 1 26 9
+	movq	-8(%rbp), %rax
+	movq	%rax, %rdi
+	call	abqParseLinesAsSeq@PLT
+	movq	%rax, -16(%rbp)
+	.loc 1 27 51
+	movq	-16(%rbp), %rax
+	movzbl	(%rax), %eax
+	.loc 1 27 2
+	movzbl	%al, %eax
+	movq	%rax, %rdx
+	movl	$17, %esi
+	leaq	.LC4(%rip), %rax
+	movq	%rax, %rdi
+	call	testAIntEqual@PLT
+	.loc 1 28 55
+	movq	-16(%rbp), %rax
+	movq	%rax, %rdi
+	call	abDefineeId@PLT
+	.loc 1 28 80
+	movq	24(%rax), %rax
+	.loc 1 28 131
+	testq	%rax, %rax
+	je	.L3
+	.loc 1 28 90 discriminator 1
+	movq	-16(%rbp), %rax
+	movq	%rax, %rdi
+	call	abDefineeId@PLT
+	.loc 1 28 115 discriminator 1
+	movq	24(%rax), %rax
+	.loc 1 28 131 discriminator 1
+	movq	(%rax), %rax
+	jmp	.L4
+.L3:
+	.loc 1 28 131 is_stmt 0 discriminator 2
+	movl	$0, %eax
+.L4:
+	.loc 1 28 2 is_stmt 1 discriminator 4
+	movq	24(%rax), %rax
+	movq	%rax, %rdx
+	leaq	.LC5(%rip), %rax
+	movq	%rax, %rsi
+	leaq	.LC6(%rip), %rax
+	movq	%rax, %rdi
+	call	testStringEqual@PLT
+	.loc 1 30 28 discriminator 4
+	movq	String_listPointer(%rip), %rax
+	movq	16(%rax), %rcx
+	leaq	.LC7(%rip), %rax
+	movq	%rax, %rdx
+	leaq	.LC2(%rip), %rax
+	movq	%rax, %rsi
+	movl	$2, %edi
+	movl	$0, %eax
+	call	*%rcx
+.LVL1:
+	movq	%rax, -8(%rbp)
+	.loc 1 31 9 discriminator 4
+	movq	-8(%rbp), %rax
+	movq	%rax, %rdi
+	call	abqParseLinesAsSeq@PLT
+	movq	%rax, -16(%rbp)
+	.loc 1 32 51 discriminator 4
+	movq	-16(%rbp), %rax
+	movzbl	(%rax), %eax
+	.loc 1 32 2 discriminator 4
+	movzbl	%al, %eax
+	movq	%rax, %rdx
+	movl	$17, %esi
+	leaq	.LC4(%rip), %rax
+	movq	%rax, %rdi
+	call	testAIntEqual@PLT
+	.loc 1 33 47 discriminator 4
+	movq	-16(%rbp), %rax
+	movq	%rax, %rdi
+	call	abDefineeId@PLT
+	.loc 1 33 72 discriminator 4
+	movq	24(%rax), %rax
+	.loc 1 33 123 discriminator 4
+	testq	%rax, %rax
+	je	.L5
+	.loc 1 33 82 discriminator 1
+	movq	-16(%rbp), %rax
+	movq	%rax, %rdi
+	call	abDefineeId@PLT
+	.loc 1 33 107 discriminator 1
+	movq	24(%rax), %rax
+	.loc 1 33 123 discriminator 1
+	movq	(%rax), %rax
+	jmp	.L6
+.L5:
+	.loc 1 33 123 is_stmt 0 discriminator 2
+	movl	$0, %eax
+.L6:
+	.loc 1 33 2 is_stmt 1 discriminator 4
+	movq	24(%rax), %rax
+	movq	%rax, %rdx
+	leaq	.LC8(%rip), %rax
+	movq	%rax, %rsi
+	leaq	.LC6(%rip), %rax
+	movq	%rax, %rdi
+	call	testStringEqual@PLT
+	.loc 1 35 28 discriminator 4
+	movq	String_listPointer(%rip), %rax
+	movq	16(%rax), %rcx
+	leaq	.LC2(%rip), %rax
+	movq	%rax, %rdx
+	leaq	.LC9(%rip), %rax
+	movq	%rax, %rsi
+	movl	$2, %edi
+	movl	$0, %eax
+	call	*%rcx
+.LVL2:
+	movq	%rax, -8(%rbp)
+	.loc 1 36 9 discriminator 4
+	movq	-8(%rbp), %rax
+	movq	%rax, %rdi
+	call	abqParseLinesAsSeq@PLT
+	movq	%rax, -16(%rbp)
+	.loc 1 37 51 discriminator 4
+	movq	-16(%rbp), %rax
+	movzbl	(%rax), %eax
+	.loc 1 37 2 discriminator 4
+	movzbl	%al, %eax
+	movq	%rax, %rdx
+	movl	$17, %esi
+	leaq	.LC4(%rip), %rax
+	movq	%rax, %rdi
+	call	testAIntEqual@PLT
+	.loc 1 38 40 discriminator 4
+	movq	-16(%rbp), %rax
+	movq	%rax, %rdi
+	call	abDefineeId@PLT
+	.loc 1 38 65 discriminator 4
+	movq	24(%rax), %rax
+	.loc 1 38 116 discriminator 4
+	testq	%rax, %rax
+	je	.L7
+	.loc 1 38 75 discriminator 1
+	movq	-16(%rbp), %rax
+	movq	%rax, %rdi
+	call	abDefineeId@PLT
+	.loc 1 38 100 discriminator 1
+	movq	24(%rax), %rax
+	.loc 1 38 116 discriminator 1
+	movq	(%rax), %rax
+	jmp	.L8
+.L7:
+	.loc 1 38 116 is_stmt 0 discriminator 2
+	movl	$0, %eax
+.L8:
+	.loc 1 38 2 is_stmt 1 discriminator 4
+	movq	24(%rax), %rax
+	movq	%rax, %rdx
+	leaq	.LC10(%rip), %rax
+	movq	%rax, %rsi
+	leaq	.LC6(%rip), %rax
+	movq	%rax, %rdi
+	call	testStringEqual@PLT
+	.loc 1 40 2 discriminator 4
+	call	finiFile@PLT
+	.loc 1 41 1 discriminator 4
+	nop
+	leave
+	.cfi_def_cfa 7, 8
+	ret
+	.cfi_endproc
+.LFE1:
+	.size	testDocco, .-testDocco
+.Letext0:
+	.file 2 "/usr/include/x86_64-linux-gnu/bits/types.h"
+	.file 3 "<built-in>"
+	.file 4 "/usr/lib/gcc/x86_64-linux-gnu/12/include/stddef.h"
+	.file 5 "/usr/include/x86_64-linux-gnu/bits/types/struct_FILE.h"
+	.file 6 "/usr/include/x86_64-linux-gnu/bits/types/FILE.h"
+	.file 7 "./cport.h"
+	.file 8 "./ostream.h"
+	.file 9 "./axlgen.h"
+	.file 10 "./srcpos.h"
+	.file 11 "./axlobs.h"
+	.file 12 "./symbol.h"
+	.file 13 "./doc.h"
+	.file 14 "./absyn.h"
+	.file 15 "./strops.h"
+	.file 16 "test/testlib.h"
+	.file 17 "test/abquick.h"
+	.section	.debug_info,"",@progbits
+.Ldebug_info0:
+	.long	0x210a
+	.value	0x5
+	.byte	0x1
+	.byte	0x8
+	.long	.Ldebug_abbrev0
+	.uleb128 0x20
+	.long	.LASF357
+	.byte	0xc
+	.long	.LASF0
+	.long	.LASF1
+	.quad	.Ltext0
+	.quad	.Letext0-.Ltext0
+	.long	.Ldebug_line0
+	.uleb128 0x21
+	.byte	0x4
+	.byte	0x5
+	.string	"int"
+	.uleb128 0xc
+	.byte	0x1
+	.byte	0x8
+	.long	.LASF2
+	.uleb128 0xc
+	.byte	0x2
+	.byte	0x7
+	.long	.LASF3
+	.uleb128 0xc
+	.byte	0x4
+	.byte	0x7
+	.long	.LASF4
+	.uleb128 0xc
+	.byte	0x8
+	.byte	0x7
+	.long	.LASF5
+	.uleb128 0xc
+	.byte	0x1
+	.byte	0x6
+	.long	.LASF6
+	.uleb128 0xc
+	.byte	0x2
+	.byte	0x5
+	.long	.LASF7
+	.uleb128 0xc
+	.byte	0x8
+	.byte	0x5
+	.long	.LASF8
+	.uleb128 0xb
+	.long	.LASF9
+	.byte	0x2
+	.byte	0x98
+	.byte	0x12
+	.long	0x5f
+	.uleb128 0xb
+	.long	.LASF10
+	.byte	0x2
+	.byte	0x99
+	.byte	0x12
+	.long	0x5f
+	.uleb128 0x22
+	.byte	0x8
+	.uleb128 0x7
+	.long	0x85
+	.uleb128 0xc
+	.byte	0x1
+	.byte	0x6
+	.long	.LASF11
+	.uleb128 0x19
+	.long	0x85
+	.uleb128 0xc
+	.byte	0x4
+	.byte	0x4
+	.long	.LASF12
+	.uleb128 0xc
+	.byte	0x8
+	.byte	0x4
+	.long	.LASF13
+	.uleb128 0x23
+	.long	.LASF358
+	.byte	0x18
+	.byte	0x3
+	.byte	0
+	.long	0xd4
+	.uleb128 0x12
+	.long	.LASF14
+	.long	0x43
+	.byte	0
+	.uleb128 0x12
+	.long	.LASF15
+	.long	0x43
+	.byte	0x4
+	.uleb128 0x12
+	.long	.LASF16
+	.long	0x7e
+	.byte	0x8
+	.uleb128 0x12
+	.long	.LASF17
+	.long	0x7e
+	.byte	0x10
+	.byte	0
+	.uleb128 0xb
+	.long	.LASF18
+	.byte	0x4
+	.byte	0xd6
+	.byte	0x1b
+	.long	0x4a
+	.uleb128 0xe
+	.long	.LASF64
+	.byte	0xd8
+	.byte	0x5
+	.byte	0x31
+	.byte	0x8
+	.long	0x267
+	.uleb128 0x8
+	.long	.LASF19
+	.byte	0x5
+	.byte	0x33
+	.byte	0x7
+	.long	0x2e
+	.byte	0
+	.uleb128 0x8
+	.long	.LASF20
+	.byte	0x5
+	.byte	0x36
+	.byte	0x9
+	.long	0x80
+	.byte	0x8
+	.uleb128 0x8
+	.long	.LASF21
+	.byte	0x5
+	.byte	0x37
+	.byte	0x9
+	.long	0x80
+	.byte	0x10
+	.uleb128 0x8
+	.long	.LASF22
+	.byte	0x5
+	.byte	0x38
+	.byte	0x9
+	.long	0x80
+	.byte	0x18
+	.uleb128 0x8
+	.long	.LASF23
+	.byte	0x5
+	.byte	0x39
+	.byte	0x9
+	.long	0x80
+	.byte	0x20
+	.uleb128 0x8
+	.long	.LASF24
+	.byte	0x5
+	.byte	0x3a
+	.byte	0x9
+	.long	0x80
+	.byte	0x28
+	.uleb128 0x8
+	.long	.LASF25
+	.byte	0x5
+	.byte	0x3b
+	.byte	0x9
+	.long	0x80
+	.byte	0x30
+	.uleb128 0x8
+	.long	.LASF26
+	.byte	0x5
+	.byte	0x3c
+	.byte	0x9
+	.long	0x80
+	.byte	0x38
+	.uleb128 0x8
+	.long	.LASF27
+	.byte	0x5
+	.byte	0x3d
+	.byte	0x9
+	.long	0x80
+	.byte	0x40
+	.uleb128 0x8
+	.long	.LASF28
+	.byte	0x5
+	.byte	0x40
+	.byte	0x9
+	.long	0x80
+	.byte	0x48
+	.uleb128 0x8
+	.long	.LASF29
+	.byte	0x5
+	.byte	0x41
+	.byte	0x9
+	.long	0x80
+	.byte	0x50
+	.uleb128 0x8
+	.long	.LASF30
+	.byte	0x5
+	.byte	0x42
+	.byte	0x9
+	.long	0x80
+	.byte	0x58
+	.uleb128 0x8
+	.long	.LASF31
+	.byte	0x5
+	.byte	0x44
+	.byte	0x16
+	.long	0x280
+	.byte	0x60
+	.uleb128 0x8
+	.long	.LASF32
+	.byte	0x5
+	.byte	0x46
+	.byte	0x14
+	.long	0x285
+	.byte	0x68
+	.uleb128 0x8
+	.long	.LASF33
+	.byte	0x5
+	.byte	0x48
+	.byte	0x7
+	.long	0x2e
+	.byte	0x70
+	.uleb128 0x8
+	.long	.LASF34
+	.byte	0x5
+	.byte	0x49
+	.byte	0x7
+	.long	0x2e
+	.byte	0x74
+	.uleb128 0x8
+	.long	.LASF35
+	.byte	0x5
+	.byte	0x4a
+	.byte	0xb
+	.long	0x66
+	.byte	0x78
+	.uleb128 0x8
+	.long	.LASF36
+	.byte	0x5
+	.byte	0x4d
+	.byte	0x12
+	.long	0x3c
+	.byte	0x80
+	.uleb128 0x8
+	.long	.LASF37
+	.byte	0x5
+	.byte	0x4e
+	.byte	0xf
+	.long	0x51
+	.byte	0x82
+	.uleb128 0x8
+	.long	.LASF38
+	.byte	0x5
+	.byte	0x4f
+	.byte	0x8
+	.long	0x28a
+	.byte	0x83
+	.uleb128 0x8
+	.long	.LASF39
+	.byte	0x5
+	.byte	0x51
+	.byte	0xf
+	.long	0x29a
+	.byte	0x88
+	.uleb128 0x8
+	.long	.LASF40
+	.byte	0x5
+	.byte	0x59
+	.byte	0xd
+	.long	0x72
+	.byte	0x90
+	.uleb128 0x8
+	.long	.LASF41
+	.byte	0x5
+	.byte	0x5b
+	.byte	0x17
+	.long	0x2a4
+	.byte	0x98
+	.uleb128 0x8
+	.long	.LASF42
+	.byte	0x5
+	.byte	0x5c
+	.byte	0x19
+	.long	0x2ae
+	.byte	0xa0
+	.uleb128 0x8
+	.long	.LASF43
+	.byte	0x5
+	.byte	0x5d
+	.byte	0x14
+	.long	0x285
+	.byte	0xa8
+	.uleb128 0x8
+	.long	.LASF44
+	.byte	0x5
+	.byte	0x5e
+	.byte	0x9
+	.long	0x7e
+	.byte	0xb0
+	.uleb128 0x8
+	.long	.LASF45
+	.byte	0x5
+	.byte	0x5f
+	.byte	0xa
+	.long	0xd4
+	.byte	0xb8
+	.uleb128 0x8
+	.long	.LASF46
+	.byte	0x5
+	.byte	0x60
+	.byte	0x7
+	.long	0x2e
+	.byte	0xc0
+	.uleb128 0x8
+	.long	.LASF47
+	.byte	0x5
+	.byte	0x62
+	.byte	0x8
+	.long	0x2b3
+	.byte	0xc4
+	.byte	0
+	.uleb128 0xb
+	.long	.LASF48
+	.byte	0x6
+	.byte	0x7
+	.byte	0x19
+	.long	0xe0
+	.uleb128 0x24
+	.long	.LASF359
+	.byte	0x5
+	.byte	0x2b
+	.byte	0xe
+	.uleb128 0x10
+	.long	.LASF49
+	.uleb128 0x7
+	.long	0x27b
+	.uleb128 0x7
+	.long	0xe0
+	.uleb128 0x14
+	.long	0x85
+	.long	0x29a
+	.uleb128 0x15
+	.long	0x4a
+	.byte	0
+	.byte	0
+	.uleb128 0x7
+	.long	0x273
+	.uleb128 0x10
+	.long	.LASF50
+	.uleb128 0x7
+	.long	0x29f
+	.uleb128 0x10
+	.long	.LASF51
+	.uleb128 0x7
+	.long	0x2a9
+	.uleb128 0x14
+	.long	0x85
+	.long	0x2c3
+	.uleb128 0x15
+	.long	0x4a
+	.byte	0x13
+	.byte	0
+	.uleb128 0x7
+	.long	0x267
+	.uleb128 0xc
+	.byte	0x8
+	.byte	0x5
+	.long	.LASF52
+	.uleb128 0x7
+	.long	0x8c
+	.uleb128 0xd
+	.long	.LASF53
+	.byte	0x7
+	.value	0x138
+	.byte	0x17
+	.long	0x35
+	.uleb128 0xd
+	.long	.LASF54
+	.byte	0x7
+	.value	0x13a
+	.byte	0x17
+	.long	0x4a
+	.uleb128 0xd
+	.long	.LASF55
+	.byte	0x7
+	.value	0x141
+	.byte	0x10
+	.long	0x5f
+	.uleb128 0xd
+	.long	.LASF56
+	.byte	0x7
+	.value	0x156
+	.byte	0xd
+	.long	0x2e
+	.uleb128 0xd
+	.long	.LASF57
+	.byte	0x7
+	.value	0x158
+	.byte	0x10
+	.long	0xd4
+	.uleb128 0xd
+	.long	.LASF58
+	.byte	0x7
+	.value	0x166
+	.byte	0x12
+	.long	0x7e
+	.uleb128 0xd
+	.long	.LASF59
+	.byte	0x7
+	.value	0x16a
+	.byte	0xf
+	.long	0x80
+	.uleb128 0xd
+	.long	.LASF60
+	.byte	0x7
+	.value	0x16b
+	.byte	0x15
+	.long	0x2cf
+	.uleb128 0xd
+	.long	.LASF61
+	.byte	0x7
+	.value	0x17a
+	.byte	0x10
+	.long	0x98
+	.uleb128 0xb
+	.long	.LASF62
+	.byte	0x8
+	.byte	0x7
+	.byte	0xf
+	.long	0x355
+	.uleb128 0x7
+	.long	0x35a
+	.uleb128 0x9
+	.long	0x2e
+	.long	0x36e
+	.uleb128 0x2
+	.long	0x32f
+	.uleb128 0x2
+	.long	0x2e
+	.byte	0
+	.uleb128 0xb
+	.long	.LASF63
+	.byte	0x8
+	.byte	0x9
+	.byte	0x19
+	.long	0x37a
+	.uleb128 0x7
+	.long	0x37f
+	.uleb128 0xe
+	.long	.LASF65
+	.byte	0x10
+	.byte	0x8
+	.byte	0x15
+	.byte	0x8
+	.long	0x3a7
+	.uleb128 0x16
+	.string	"ops"
+	.byte	0x8
+	.byte	0x16
+	.byte	0xd
+	.long	0x443
+	.byte	0
+	.uleb128 0x8
+	.long	.LASF66
+	.byte	0x8
+	.byte	0x1a
+	.byte	0x4
+	.long	0x454
+	.byte	0x8
+	.byte	0
+	.uleb128 0xb
+	.long	.LASF67
+	.byte	0x8
+	.byte	0xb
+	.byte	0xe
+	.long	0x3b3
+	.uleb128 0x11
+	.long	0x3c3
+	.uleb128 0x2
+	.long	0x36e
+	.uleb128 0x2
+	.long	0x85
+	.byte	0
+	.uleb128 0xb
+	.long	.LASF68
+	.byte	0x8
+	.byte	0xc
+	.byte	0xd
+	.long	0x3cf
+	.uleb128 0x9
+	.long	0x2e
+	.long	0x3e8
+	.uleb128 0x2
+	.long	0x36e
+	.uleb128 0x2
+	.long	0x2cf
+	.uleb128 0x2
+	.long	0x2e
+	.byte	0
+	.uleb128 0xb
+	.long	.LASF69
+	.byte	0x8
+	.byte	0xd
+	.byte	0xe
+	.long	0x3f4
+	.uleb128 0x11
+	.long	0x3ff
+	.uleb128 0x2
+	.long	0x36e
+	.byte	0
+	.uleb128 0xe
+	.long	.LASF70
+	.byte	0x18
+	.byte	0x8
+	.byte	0xf
+	.byte	0x10
+	.long	0x434
+	.uleb128 0x8
+	.long	.LASF71
+	.byte	0x8
+	.byte	0x10
+	.byte	0x12
+	.long	0x434
+	.byte	0
+	.uleb128 0x8
+	.long	.LASF72
+	.byte	0x8
+	.byte	0x11
+	.byte	0x14
+	.long	0x439
+	.byte	0x8
+	.uleb128 0x8
+	.long	.LASF73
+	.byte	0x8
+	.byte	0x12
+	.byte	0xe
+	.long	0x43e
+	.byte	0x10
+	.byte	0
+	.uleb128 0x7
+	.long	0x3a7
+	.uleb128 0x7
+	.long	0x3c3
+	.uleb128 0x7
+	.long	0x3e8
+	.uleb128 0xb
+	.long	.LASF74
+	.byte	0x8
+	.byte	0x13
+	.byte	0x4
+	.long	0x44f
+	.uleb128 0x7
+	.long	0x3ff
+	.uleb128 0x25
+	.byte	0x8
+	.byte	0x8
+	.byte	0x17
+	.byte	0x2
+	.long	0x474
+	.uleb128 0x1a
+	.string	"obj"
+	.byte	0x18
+	.byte	0xb
+	.long	0x315
+	.uleb128 0x1a
+	.string	"fun"
+	.byte	0x19
+	.byte	0x11
+	.long	0x349
+	.byte	0
+	.uleb128 0x7
+	.long	0x9f
+	.uleb128 0x7
+	.long	0x2e
+	.uleb128 0xb
+	.long	.LASF75
+	.byte	0x9
+	.byte	0x29
+	.byte	0xf
+	.long	0x2e1
+	.uleb128 0xb
+	.long	.LASF76
+	.byte	0x9
+	.byte	0x2a
+	.byte	0x1b
+	.long	0x496
+	.uleb128 0x7
+	.long	0x49b
+	.uleb128 0xe
+	.long	.LASF77
+	.byte	0x10
+	.byte	0xa
+	.byte	0x43
+	.byte	0x8
+	.long	0x4c3
+	.uleb128 0x8
+	.long	.LASF78
+	.byte	0xa
+	.byte	0x44
+	.byte	0x9
+	.long	0x47e
+	.byte	0
+	.uleb128 0x8
+	.long	.LASF79
+	.byte	0xa
+	.byte	0x45
+	.byte	0xe
+	.long	0x4c3
+	.byte	0x8
+	.byte	0
+	.uleb128 0xb
+	.long	.LASF80
+	.byte	0x9
+	.byte	0x2b
+	.byte	0x19
+	.long	0x4cf
+	.uleb128 0x26
+	.long	.LASF90
+	.byte	0x8
+	.byte	0xa
+	.byte	0x3e
+	.byte	0x7
+	.long	0x4f3
+	.uleb128 0x1b
+	.long	.LASF78
+	.byte	0x3f
+	.byte	0x9
+	.long	0x47e
+	.uleb128 0x1b
+	.long	.LASF81
+	.byte	0x40
+	.byte	0xd
+	.long	0x48a
+	.byte	0
+	.uleb128 0xb
+	.long	.LASF82
+	.byte	0xb
+	.byte	0x19
+	.byte	0x19
+	.long	0x4ff
+	.uleb128 0x7
+	.long	0x504
+	.uleb128 0xe
+	.long	.LASF83
+	.byte	0x10
+	.byte	0xc
+	.byte	0x19
+	.byte	0x8
+	.long	0x52c
+	.uleb128 0x8
+	.long	.LASF84
+	.byte	0xc
+	.byte	0x1a
+	.byte	0x13
+	.long	0x9f7
+	.byte	0
+	.uleb128 0x16
+	.string	"str"
+	.byte	0xc
+	.byte	0x1b
+	.byte	0x9
+	.long	0x322
+	.byte	0x8
+	.byte	0
+	.uleb128 0x27
+	.string	"Doc"
+	.byte	0xb
+	.byte	0x1c
+	.byte	0x16
+	.long	0x538
+	.uleb128 0x7
+	.long	0x53d
+	.uleb128 0x28
+	.string	"doc"
+	.byte	0x28
+	.byte	0xd
+	.byte	0x15
+	.byte	0x8
+	.long	0x58b
+	.uleb128 0x8
+	.long	.LASF85
+	.byte	0xd
+	.byte	0x16
+	.byte	0x7
+	.long	0x2fb
+	.byte	0
+	.uleb128 0x8
+	.long	.LASF86
+	.byte	0xd
+	.byte	0x17
+	.byte	0x7
+	.long	0x2ee
+	.byte	0x8
+	.uleb128 0x8
+	.long	.LASF87
+	.byte	0xd
+	.byte	0x18
+	.byte	0xd
+	.long	0x1a8b
+	.byte	0x10
+	.uleb128 0x8
+	.long	.LASF88
+	.byte	0xd
+	.byte	0x19
+	.byte	0x9
+	.long	0x322
+	.byte	0x18
+	.uleb128 0x16
+	.string	"cc"
+	.byte	0xd
+	.byte	0x1a
+	.byte	0x9
+	.long	0x308
+	.byte	0x20
+	.byte	0
+	.uleb128 0xb
+	.long	.LASF89
+	.byte	0xb
+	.byte	0x1d
+	.byte	0x17
+	.long	0x597
+	.uleb128 0x7
+	.long	0x59c
+	.uleb128 0x29
+	.long	.LASF91
+	.byte	0x80
+	.byte	0xe
+	.value	0x2e0
+	.byte	0x7
+	.long	0x917
+	.uleb128 0x5
+	.long	.LASF92
+	.value	0x2e4
+	.byte	0xf
+	.long	0xcbd
+	.uleb128 0x5
+	.long	.LASF93
+	.value	0x2e5
+	.byte	0xf
+	.long	0xd6e
+	.uleb128 0x5
+	.long	.LASF94
+	.value	0x2ec
+	.byte	0x11
+	.long	0xd95
+	.uleb128 0x5
+	.long	.LASF95
+	.value	0x2ed
+	.byte	0xe
+	.long	0xdbc
+	.uleb128 0x5
+	.long	.LASF96
+	.value	0x2ee
+	.byte	0x10
+	.long	0xde3
+	.uleb128 0x5
+	.long	.LASF97
+	.value	0x2f0
+	.byte	0x13
+	.long	0xe0a
+	.uleb128 0x5
+	.long	.LASF98
+	.value	0x2f1
+	.byte	0x16
+	.long	0xe31
+	.uleb128 0x5
+	.long	.LASF99
+	.value	0x2f2
+	.byte	0x15
+	.long	0xe7f
+	.uleb128 0x5
+	.long	.LASF100
+	.value	0x2f3
+	.byte	0x14
+	.long	0xe58
+	.uleb128 0x5
+	.long	.LASF101
+	.value	0x2f6
+	.byte	0xf
+	.long	0xea6
+	.uleb128 0x5
+	.long	.LASF102
+	.value	0x2f7
+	.byte	0xf
+	.long	0xeda
+	.uleb128 0x5
+	.long	.LASF103
+	.value	0x2f8
+	.byte	0x11
+	.long	0xf01
+	.uleb128 0x5
+	.long	.LASF104
+	.value	0x2f9
+	.byte	0x12
+	.long	0xf34
+	.uleb128 0x5
+	.long	.LASF105
+	.value	0x2fa
+	.byte	0x12
+	.long	0xf5b
+	.uleb128 0x5
+	.long	.LASF106
+	.value	0x2fb
+	.byte	0x11
+	.long	0xf8f
+	.uleb128 0x5
+	.long	.LASF107
+	.value	0x2fc
+	.byte	0x13
+	.long	0xfb6
+	.uleb128 0x5
+	.long	.LASF108
+	.value	0x2fd
+	.byte	0x13
+	.long	0xfdd
+	.uleb128 0x5
+	.long	.LASF109
+	.value	0x2fe
+	.byte	0x14
+	.long	0x106b
+	.uleb128 0x5
+	.long	.LASF110
+	.value	0x2ff
+	.byte	0x13
+	.long	0x109f
+	.uleb128 0x5
+	.long	.LASF111
+	.value	0x300
+	.byte	0x11
+	.long	0x10d3
+	.uleb128 0x5
+	.long	.LASF112
+	.value	0x301
+	.byte	0x13
+	.long	0x10fa
+	.uleb128 0x5
+	.long	.LASF113
+	.value	0x302
+	.byte	0x12
+	.long	0x1121
+	.uleb128 0x5
+	.long	.LASF114
+	.value	0x303
+	.byte	0x13
+	.long	0x1155
+	.uleb128 0x5
+	.long	.LASF115
+	.value	0x304
+	.byte	0xe
+	.long	0x1010
+	.uleb128 0x5
+	.long	.LASF116
+	.value	0x305
+	.byte	0x16
+	.long	0x1037
+	.uleb128 0x5
+	.long	.LASF117
+	.value	0x306
+	.byte	0x12
+	.long	0x117c
+	.uleb128 0x5
+	.long	.LASF118
+	.value	0x307
+	.byte	0x10
+	.long	0x11b0
+	.uleb128 0x5
+	.long	.LASF119
+	.value	0x308
+	.byte	0x12
+	.long	0x11e4
+	.uleb128 0x5
+	.long	.LASF120
+	.value	0x309
+	.byte	0x12
+	.long	0x1225
+	.uleb128 0x5
+	.long	.LASF121
+	.value	0x30a
+	.byte	0xf
+	.long	0x124c
+	.uleb128 0x5
+	.long	.LASF122
+	.value	0x30b
+	.byte	0x11
+	.long	0x1273
+	.uleb128 0x5
+	.long	.LASF123
+	.value	0x30c
+	.byte	0xf
+	.long	0x129a
+	.uleb128 0x5
+	.long	.LASF124
+	.value	0x30d
+	.byte	0x19
+	.long	0x12db
+	.uleb128 0x5
+	.long	.LASF125
+	.value	0x30e
+	.byte	0x19
+	.long	0x130f
+	.uleb128 0x5
+	.long	.LASF126
+	.value	0x30f
+	.byte	0x10
+	.long	0x1343
+	.uleb128 0x5
+	.long	.LASF127
+	.value	0x310
+	.byte	0x14
+	.long	0x136a
+	.uleb128 0x5
+	.long	.LASF128
+	.value	0x311
+	.byte	0x10
+	.long	0x139e
+	.uleb128 0x5
+	.long	.LASF129
+	.value	0x312
+	.byte	0xf
+	.long	0x13c5
+	.uleb128 0x5
+	.long	.LASF130
+	.value	0x313
+	.byte	0x10
+	.long	0x13f9
+	.uleb128 0x5
+	.long	.LASF131
+	.value	0x314
+	.byte	0x10
+	.long	0x1420
+	.uleb128 0x5
+	.long	.LASF132
+	.value	0x315
+	.byte	0xe
+	.long	0x1447
+	.uleb128 0x5
+	.long	.LASF133
+	.value	0x316
+	.byte	0x12
+	.long	0x1488
+	.uleb128 0x5
+	.long	.LASF134
+	.value	0x317
+	.byte	0x12
+	.long	0x14bc
+	.uleb128 0x5
+	.long	.LASF135
+	.value	0x318
+	.byte	0x13
+	.long	0x14f0
+	.uleb128 0x5
+	.long	.LASF136
+	.value	0x319
+	.byte	0x11
+	.long	0x1517
+	.uleb128 0x5
+	.long	.LASF137
+	.value	0x31a
+	.byte	0x12
+	.long	0x154b
+	.uleb128 0x5
+	.long	.LASF138
+	.value	0x31b
+	.byte	0xf
+	.long	0x158c
+	.uleb128 0x5
+	.long	.LASF139
+	.value	0x31c
+	.byte	0x11
+	.long	0x15c0
+	.uleb128 0x5
+	.long	.LASF140
+	.value	0x31d
+	.byte	0x11
+	.long	0x15e7
+	.uleb128 0x5
+	.long	.LASF141
+	.value	0x31e
+	.byte	0x13
+	.long	0x160e
+	.uleb128 0x5
+	.long	.LASF142
+	.value	0x31f
+	.byte	0x13
+	.long	0x1642
+	.uleb128 0x5
+	.long	.LASF143
+	.value	0x320
+	.byte	0x11
+	.long	0x1676
+	.uleb128 0x5
+	.long	.LASF144
+	.value	0x321
+	.byte	0xf
+	.long	0x1690
+	.uleb128 0x5
+	.long	.LASF145
+	.value	0x322
+	.byte	0x13
+	.long	0x16b7
+	.uleb128 0x5
+	.long	.LASF146
+	.value	0x323
+	.byte	0xe
+	.long	0x16d1
+	.uleb128 0x5
+	.long	.LASF147
+	.value	0x324
+	.byte	0x11
+	.long	0x16f8
+	.uleb128 0x5
+	.long	.LASF148
+	.value	0x325
+	.byte	0x13
+	.long	0x171f
+	.uleb128 0x5
+	.long	.LASF149
+	.value	0x326
+	.byte	0x15
+	.long	0x1760
+	.uleb128 0x5
+	.long	.LASF150
+	.value	0x327
+	.byte	0x13
+	.long	0x1794
+	.uleb128 0x5
+	.long	.LASF151
+	.value	0x328
+	.byte	0x11
+	.long	0x17c8
+	.uleb128 0x5
+	.long	.LASF152
+	.value	0x329
+	.byte	0x15
+	.long	0x17ef
+	.uleb128 0x5
+	.long	.LASF153
+	.value	0x32a
+	.byte	0x12
+	.long	0x1816
+	.uleb128 0x5
+	.long	.LASF154
+	.value	0x32b
+	.byte	0x16
+	.long	0x184a
+	.uleb128 0x5
+	.long	.LASF155
+	.value	0x32c
+	.byte	0x15
+	.long	0x187e
+	.uleb128 0x5
+	.long	.LASF156
+	.value	0x32d
+	.byte	0x12
+	.long	0x18b2
+	.uleb128 0x5
+	.long	.LASF157
+	.value	0x32e
+	.byte	0x12
+	.long	0x18d9
+	.uleb128 0x5
+	.long	.LASF158
+	.value	0x32f
+	.byte	0x14
+	.long	0x190d
+	.uleb128 0x5
+	.long	.LASF159
+	.value	0x330
+	.byte	0x10
+	.long	0x1934
+	.uleb128 0x5
+	.long	.LASF160
+	.value	0x331
+	.byte	0xf
+	.long	0x195b
+	.uleb128 0x5
+	.long	.LASF161
+	.value	0x332
+	.byte	0x11
+	.long	0x19a8
+	.uleb128 0x5
+	.long	.LASF162
+	.value	0x333
+	.byte	0x11
+	.long	0x19dc
+	.uleb128 0x5
+	.long	.LASF163
+	.value	0x334
+	.byte	0x10
+	.long	0x1a03
+	.uleb128 0x5
+	.long	.LASF164
+	.value	0x335
+	.byte	0x11
+	.long	0x1a37
+	.byte	0
+	.uleb128 0xb
+	.long	.LASF165
+	.byte	0xb
+	.byte	0x23
+	.byte	0x17
+	.long	0x923
+	.uleb128 0x7
+	.long	0x928
+	.uleb128 0x10
+	.long	.LASF166
+	.uleb128 0xb
+	.long	.LASF167
+	.byte	0xb
+	.byte	0x24
+	.byte	0x18
+	.long	0x939
+	.uleb128 0x7
+	.long	0x93e
+	.uleb128 0x10
+	.long	.LASF168
+	.uleb128 0xb
+	.long	.LASF169
+	.byte	0xb
+	.byte	0x25
+	.byte	0x18
+	.long	0x94f
+	.uleb128 0x7
+	.long	0x954
+	.uleb128 0x10
+	.long	.LASF170
+	.uleb128 0xb
+	.long	.LASF171
+	.byte	0xb
+	.byte	0x2e
+	.byte	0x1c
+	.long	0x965
+	.uleb128 0x7
+	.long	0x96a
+	.uleb128 0x10
+	.long	.LASF172
+	.uleb128 0xb
+	.long	.LASF173
+	.byte	0xb
+	.byte	0x2f
+	.byte	0x24
+	.long	0x97b
+	.uleb128 0x7
+	.long	0x980
+	.uleb128 0xe
+	.long	.LASF174
+	.byte	0x10
+	.byte	0xb
+	.byte	0x56
+	.byte	0x10
+	.long	0x9a8
+	.uleb128 0x8
+	.long	.LASF175
+	.byte	0xb
+	.byte	0x56
+	.byte	0x2e
+	.long	0x959
+	.byte	0
+	.uleb128 0x8
+	.long	.LASF79
+	.byte	0xb
+	.byte	0x56
+	.byte	0x4f
+	.long	0x97b
+	.byte	0x8
+	.byte	0
+	.uleb128 0xb
+	.long	.LASF176
+	.byte	0xb
+	.byte	0x3a
+	.byte	0x18
+	.long	0x9b4
+	.uleb128 0x7
+	.long	0x9b9
+	.uleb128 0x2a
+	.long	.LASF360
+	.uleb128 0xe
+	.long	.LASF177
+	.byte	0x10
+	.byte	0xb
+	.byte	0x57
+	.byte	0x10
+	.long	0x9e6
+	.uleb128 0x8
+	.long	.LASF175
+	.byte	0xb
+	.byte	0x57
+	.byte	0x24
+	.long	0x917
+	.byte	0
+	.uleb128 0x8
+	.long	.LASF79
+	.byte	0xb
+	.byte	0x57
+	.byte	0x40
+	.long	0x9e6
+	.byte	0x8
+	.byte	0
+	.uleb128 0x7
+	.long	0x9be
+	.uleb128 0xb
+	.long	.LASF178
+	.byte	0xb
+	.byte	0x57
+	.byte	0x49
+	.long	0x9e6
+	.uleb128 0x7
+	.long	0x33c
+	.uleb128 0x2b
+	.long	.LASF361
+	.byte	0x7
+	.byte	0x4
+	.long	0x43
+	.byte	0xe
+	.byte	0x16
+	.byte	0x6
+	.long	0xbfb
+	.uleb128 0x4
+	.long	.LASF179
+	.byte	0
+	.uleb128 0x4
+	.long	.LASF180
+	.byte	0
+	.uleb128 0x4
+	.long	.LASF181
+	.byte	0
+	.uleb128 0x4
+	.long	.LASF182
+	.byte	0x1
+	.uleb128 0x4
+	.long	.LASF183
+	.byte	0x2
+	.uleb128 0x4
+	.long	.LASF184
+	.byte	0x3
+	.uleb128 0x4
+	.long	.LASF185
+	.byte	0x3
+	.uleb128 0x4
+	.long	.LASF186
+	.byte	0x3
+	.uleb128 0x4
+	.long	.LASF187
+	.byte	0x4
+	.uleb128 0x4
+	.long	.LASF188
+	.byte	0x4
+	.uleb128 0x4
+	.long	.LASF189
+	.byte	0x4
+	.uleb128 0x4
+	.long	.LASF190
+	.byte	0x5
+	.uleb128 0x4
+	.long	.LASF191
+	.byte	0x6
+	.uleb128 0x4
+	.long	.LASF192
+	.byte	0x7
+	.uleb128 0x4
+	.long	.LASF193
+	.byte	0x7
+	.uleb128 0x4
+	.long	.LASF194
+	.byte	0x7
+	.uleb128 0x4
+	.long	.LASF195
+	.byte	0x8
+	.uleb128 0x4
+	.long	.LASF196
+	.byte	0x9
+	.uleb128 0x4
+	.long	.LASF197
+	.byte	0xa
+	.uleb128 0x4
+	.long	.LASF198
+	.byte	0xb
+	.uleb128 0x4
+	.long	.LASF199
+	.byte	0xc
+	.uleb128 0x4
+	.long	.LASF200
+	.byte	0xd
+	.uleb128 0x4
+	.long	.LASF201
+	.byte	0xe
+	.uleb128 0x4
+	.long	.LASF202
+	.byte	0xf
+	.uleb128 0x4
+	.long	.LASF203
+	.byte	0x10
+	.uleb128 0x4
+	.long	.LASF204
+	.byte	0x11
+	.uleb128 0x4
+	.long	.LASF205
+	.byte	0x12
+	.uleb128 0x4
+	.long	.LASF206
+	.byte	0x13
+	.uleb128 0x4
+	.long	.LASF207
+	.byte	0x14
+	.uleb128 0x4
+	.long	.LASF208
+	.byte	0x15
+	.uleb128 0x4
+	.long	.LASF209
+	.byte	0x16
+	.uleb128 0x4
+	.long	.LASF210
+	.byte	0x17
+	.uleb128 0x4
+	.long	.LASF211
+	.byte	0x18
+	.uleb128 0x4
+	.long	.LASF212
+	.byte	0x19
+	.uleb128 0x4
+	.long	.LASF213
+	.byte	0x1a
+	.uleb128 0x4
+	.long	.LASF214
+	.byte	0x1b
+	.uleb128 0x4
+	.long	.LASF215
+	.byte	0x1c
+	.uleb128 0x4
+	.long	.LASF216
+	.byte	0x1d
+	.uleb128 0x4
+	.long	.LASF217
+	.byte	0x1e
+	.uleb128 0x4
+	.long	.LASF218
+	.byte	0x1f
+	.uleb128 0x4
+	.long	.LASF219
+	.byte	0x20
+	.uleb128 0x4
+	.long	.LASF220
+	.byte	0x21
+	.uleb128 0x4
+	.long	.LASF221
+	.byte	0x22
+	.uleb128 0x4
+	.long	.LASF222
+	.byte	0x23
+	.uleb128 0x4
+	.long	.LASF223
+	.byte	0x24
+	.uleb128 0x4
+	.long	.LASF224
+	.byte	0x25
+	.uleb128 0x4
+	.long	.LASF225
+	.byte	0x26
+	.uleb128 0x4
+	.long	.LASF226
+	.byte	0x27
+	.uleb128 0x4
+	.long	.LASF227
+	.byte	0x28
+	.uleb128 0x4
+	.long	.LASF228
+	.byte	0x29
+	.uleb128 0x4
+	.long	.LASF229
+	.byte	0x2a
+	.uleb128 0x4
+	.long	.LASF230
+	.byte	0x2b
+	.uleb128 0x4
+	.long	.LASF231
+	.byte	0x2c
+	.uleb128 0x4
+	.long	.LASF232
+	.byte	0x2d
+	.uleb128 0x4
+	.long	.LASF233
+	.byte	0x2e
+	.uleb128 0x4
+	.long	.LASF234
+	.byte	0x2f
+	.uleb128 0x4
+	.long	.LASF235
+	.byte	0x30
+	.uleb128 0x4
+	.long	.LASF236
+	.byte	0x31
+	.uleb128 0x4
+	.long	.LASF237
+	.byte	0x32
+	.uleb128 0x4
+	.long	.LASF238
+	.byte	0x33
+	.uleb128 0x4
+	.long	.LASF239
+	.byte	0x34
+	.uleb128 0x4
+	.long	.LASF240
+	.byte	0x35
+	.uleb128 0x4
+	.long	.LASF241
+	.byte	0x36
+	.uleb128 0x4
+	.long	.LASF242
+	.byte	0x37
+	.uleb128 0x4
+	.long	.LASF243
+	.byte	0x38
+	.uleb128 0x4
+	.long	.LASF244
+	.byte	0x39
+	.uleb128 0x4
+	.long	.LASF245
+	.byte	0x3a
+	.uleb128 0x4
+	.long	.LASF246
+	.byte	0x3b
+	.uleb128 0x4
+	.long	.LASF247
+	.byte	0x3c
+	.uleb128 0x4
+	.long	.LASF248
+	.byte	0x3d
+	.uleb128 0x4
+	.long	.LASF249
+	.byte	0x3e
+	.uleb128 0x4
+	.long	.LASF250
+	.byte	0x3f
+	.uleb128 0x4
+	.long	.LASF251
+	.byte	0x40
+	.uleb128 0x4
+	.long	.LASF252
+	.byte	0x41
+	.uleb128 0x4
+	.long	.LASF253
+	.byte	0x42
+	.uleb128 0x4
+	.long	.LASF254
+	.byte	0x43
+	.uleb128 0x4
+	.long	.LASF255
+	.byte	0x44
+	.uleb128 0x4
+	.long	.LASF256
+	.byte	0x45
+	.uleb128 0x4
+	.long	.LASF257
+	.byte	0x46
+	.uleb128 0x4
+	.long	.LASF258
+	.byte	0x47
+	.uleb128 0x4
+	.long	.LASF259
+	.byte	0x48
+	.uleb128 0x4
+	.long	.LASF260
+	.byte	0x48
+	.byte	0
+	.uleb128 0xd
+	.long	.LASF261
+	.byte	0xe
+	.value	0x100
+	.byte	0xf
+	.long	0x2e1
+	.uleb128 0x6
+	.long	.LASF262
+	.byte	0x48
+	.value	0x11e
+	.long	0xc8a
+	.uleb128 0x1
+	.long	.LASF263
+	.value	0x11f
+	.byte	0x6
+	.long	0x52c
+	.byte	0
+	.uleb128 0x1
+	.long	.LASF264
+	.value	0x120
+	.byte	0x7
+	.long	0x96f
+	.byte	0x8
+	.uleb128 0x1
+	.long	.LASF265
+	.value	0x121
+	.byte	0x6
+	.long	0x2e
+	.byte	0x10
+	.uleb128 0x1
+	.long	.LASF166
+	.value	0x122
+	.byte	0x7
+	.long	0x917
+	.byte	0x18
+	.uleb128 0x1
+	.long	.LASF168
+	.value	0x123
+	.byte	0x8
+	.long	0x92d
+	.byte	0x20
+	.uleb128 0x1
+	.long	.LASF266
+	.value	0x124
+	.byte	0x8
+	.long	0x58b
+	.byte	0x28
+	.uleb128 0x1
+	.long	.LASF267
+	.value	0x125
+	.byte	0xa
+	.long	0xbfb
+	.byte	0x30
+	.uleb128 0x1
+	.long	.LASF268
+	.value	0x126
+	.byte	0x8
+	.long	0x9a8
+	.byte	0x38
+	.uleb128 0x1
+	.long	.LASF269
+	.value	0x127
+	.byte	0xb
+	.long	0x9eb
+	.byte	0x40
+	.byte	0
+	.uleb128 0xd
+	.long	.LASF270
+	.byte	0xe
+	.value	0x12a
+	.byte	0x19
+	.long	0xc97
+	.uleb128 0x7
+	.long	0xc08
+	.uleb128 0x1c
+	.byte	0x8
+	.value	0x13a
+	.long	0xcbd
+	.uleb128 0x5
+	.long	.LASF271
+	.value	0x13b
+	.byte	0x9
+	.long	0x943
+	.uleb128 0x5
+	.long	.LASF272
+	.value	0x13c
+	.byte	0x9
+	.long	0x92d
+	.byte	0
+	.uleb128 0x6
+	.long	.LASF92
+	.byte	0x28
+	.value	0x130
+	.long	0xd25
+	.uleb128 0x3
+	.string	"tag"
+	.value	0x131
+	.byte	0x8
+	.long	0x2d4
+	.byte	0
+	.uleb128 0x3
+	.string	"use"
+	.value	0x132
+	.byte	0x8
+	.long	0x2d4
+	.byte	0x1
+	.uleb128 0x1
+	.long	.LASF273
+	.value	0x133
+	.byte	0x8
+	.long	0x2d4
+	.byte	0x2
+	.uleb128 0x1
+	.long	.LASF274
+	.value	0x135
+	.byte	0x9
+	.long	0x308
+	.byte	0x8
+	.uleb128 0x3
+	.string	"pos"
+	.value	0x136
+	.byte	0xe
+	.long	0x4c3
+	.byte	0x10
+	.uleb128 0x1
+	.long	.LASF275
+	.value	0x138
+	.byte	0xa
+	.long	0xc8a
+	.byte	0x18
+	.uleb128 0x1
+	.long	.LASF276
+	.value	0x13d
+	.byte	0x4
+	.long	0xc9c
+	.byte	0x20
+	.byte	0
+	.uleb128 0x1c
+	.byte	0x50
+	.value	0x142
+	.long	0xd5e
+	.uleb128 0x17
+	.string	"sym"
+	.value	0x143
+	.byte	0xa
+	.long	0x4f3
+	.uleb128 0x17
+	.string	"doc"
+	.value	0x144
+	.byte	0x7
+	.long	0x52c
+	.uleb128 0x17
+	.string	"str"
+	.value	0x145
+	.byte	0xa
+	.long	0x322
+	.uleb128 0x5
+	.long	.LASF277
+	.value	0x146
+	.byte	0x9
+	.long	0xd5e
+	.byte	0
+	.uleb128 0x14
+	.long	0x58b
+	.long	0xd6e
+	.uleb128 0x15
+	.long	0x4a
+	.byte	0x9
+	.byte	0
+	.uleb128 0x6
+	.long	.LASF93
+	.byte	0x78
+	.value	0x140
+	.long	0xd95
+	.uleb128 0x3
+	.string	"hdr"
+	.value	0x141
+	.byte	0xf
+	.long	0xcbd
+	.byte	0
+	.uleb128 0x1
+	.long	.LASF66
+	.value	0x147
+	.byte	0x4
+	.long	0xd25
+	.byte	0x28
+	.byte	0
+	.uleb128 0x6
+	.long	.LASF94
+	.byte	0x30
+	.value	0x14e
+	.long	0xdbc
+	.uleb128 0x3
+	.string	"hdr"
+	.value	0x14f
+	.byte	0xf
+	.long	0xcbd
+	.byte	0
+	.uleb128 0x3
+	.string	"sym"
+	.value	0x150
+	.byte	0x9
+	.long	0x4f3
+	.byte	0x28
+	.byte	0
+	.uleb128 0x6
+	.long	.LASF95
+	.byte	0x30
+	.value	0x153
+	.long	0xde3
+	.uleb128 0x3
+	.string	"hdr"
+	.value	0x154
+	.byte	0xf
+	.long	0xcbd
+	.byte	0
+	.uleb128 0x3
+	.string	"sym"
+	.value	0x155
+	.byte	0x9
+	.long	0x4f3
+	.byte	0x28
+	.byte	0
+	.uleb128 0x6
+	.long	.LASF96
+	.byte	0x30
+	.value	0x158
+	.long	0xe0a
+	.uleb128 0x3
+	.string	"hdr"
+	.value	0x159
+	.byte	0xf
+	.long	0xcbd
+	.byte	0
+	.uleb128 0x3
+	.string	"sym"
+	.value	0x15a
+	.byte	0x9
+	.long	0x4f3
+	.byte	0x28
+	.byte	0
+	.uleb128 0x6
+	.long	.LASF97
+	.byte	0x30
+	.value	0x15d
+	.long	0xe31
+	.uleb128 0x3
+	.string	"hdr"
+	.value	0x15e
+	.byte	0xf
+	.long	0xcbd
+	.byte	0
+	.uleb128 0x3
+	.string	"doc"
+	.value	0x15f
+	.byte	0x6
+	.long	0x52c
+	.byte	0x28
+	.byte	0
+	.uleb128 0x6
+	.long	.LASF98
+	.byte	0x30
+	.value	0x162
+	.long	0xe58
+	.uleb128 0x3
+	.string	"hdr"
+	.value	0x163
+	.byte	0xf
+	.long	0xcbd
+	.byte	0
+	.uleb128 0x3
+	.string	"str"
+	.value	0x164
+	.byte	0x9
+	.long	0x322
+	.byte	0x28
+	.byte	0
+	.uleb128 0x6
+	.long	.LASF100
+	.byte	0x30
+	.value	0x167
+	.long	0xe7f
+	.uleb128 0x3
+	.string	"hdr"
+	.value	0x168
+	.byte	0xf
+	.long	0xcbd
+	.byte	0
+	.uleb128 0x3
+	.string	"str"
+	.value	0x169
+	.byte	0x9
+	.long	0x322
+	.byte	0x28
+	.byte	0
+	.uleb128 0x6
+	.long	.LASF99
+	.byte	0x30
+	.value	0x16c
+	.long	0xea6
+	.uleb128 0x3
+	.string	"hdr"
+	.value	0x16d
+	.byte	0xf
+	.long	0xcbd
+	.byte	0
+	.uleb128 0x3
+	.string	"str"
+	.value	0x16e
+	.byte	0x9
+	.long	0x322
+	.byte	0x28
+	.byte	0
+	.uleb128 0x6
+	.long	.LASF101
+	.byte	0x38
+	.value	0x175
+	.long	0xeda
+	.uleb128 0x3
+	.string	"hdr"
+	.value	0x176
+	.byte	0xf
+	.long	0xcbd
+	.byte	0
+	.uleb128 0x1
+	.long	.LASF278
+	.value	0x177
+	.byte	0x8
+	.long	0x58b
+	.byte	0x28
+	.uleb128 0x1
+	.long	.LASF279
+	.value	0x178
+	.byte	0x8
+	.long	0x58b
+	.byte	0x30
+	.byte	0
+	.uleb128 0x6
+	.long	.LASF102
+	.byte	0x78
+	.value	0x17b
+	.long	0xf01
+	.uleb128 0x3
+	.string	"hdr"
+	.value	0x17c
+	.byte	0xf
+	.long	0xcbd
+	.byte	0
+	.uleb128 0x1
+	.long	.LASF277
+	.value	0x17d
+	.byte	0x8
+	.long	0xd5e
+	.byte	0x28
+	.byte	0
+	.uleb128 0x6
+	.long	.LASF103
+	.byte	0x80
+	.value	0x180
+	.long	0xf34
+	.uleb128 0x3
+	.string	"hdr"
+	.value	0x181
+	.byte	0xf
+	.long	0xcbd
+	.byte	0
+	.uleb128 0x3
+	.string	"op"
+	.value	0x182
+	.byte	0x8
+	.long	0x58b
+	.byte	0x28
+	.uleb128 0x1
+	.long	.LASF277
+	.value	0x183
+	.byte	0x8
+	.long	0xd5e
+	.byte	0x30
+	.byte	0
+	.uleb128 0x6
+	.long	.LASF104
+	.byte	0x30
+	.value	0x186
+	.long	0xf5b
+	.uleb128 0x3
+	.string	"hdr"
+	.value	0x187
+	.byte	0xf
+	.long	0xcbd
+	.byte	0
+	.uleb128 0x1
+	.long	.LASF280
+	.value	0x188
+	.byte	0x8
+	.long	0x58b
+	.byte	0x28
+	.byte	0
+	.uleb128 0x6
+	.long	.LASF105
+	.byte	0x38
+	.value	0x18b
+	.long	0xf8f
+	.uleb128 0x3
+	.string	"hdr"
+	.value	0x18c
+	.byte	0xf
+	.long	0xcbd
+	.byte	0
+	.uleb128 0x3
+	.string	"lhs"
+	.value	0x18d
+	.byte	0x8
+	.long	0x58b
+	.byte	0x28
+	.uleb128 0x3
+	.string	"rhs"
+	.value	0x18e
+	.byte	0x8
+	.long	0x58b
+	.byte	0x30
+	.byte	0
+	.uleb128 0x6
+	.long	.LASF106
+	.byte	0x30
+	.value	0x191
+	.long	0xfb6
+	.uleb128 0x3
+	.string	"hdr"
+	.value	0x192
+	.byte	0xf
+	.long	0xcbd
+	.byte	0
+	.uleb128 0x1
+	.long	.LASF281
+	.value	0x193
+	.byte	0x8
+	.long	0x58b
+	.byte	0x28
+	.byte	0
+	.uleb128 0x6
+	.long	.LASF107
+	.byte	0x30
+	.value	0x196
+	.long	0xfdd
+	.uleb128 0x3
+	.string	"hdr"
+	.value	0x197
+	.byte	0xf
+	.long	0xcbd
+	.byte	0
+	.uleb128 0x1
+	.long	.LASF282
+	.value	0x198
+	.byte	0x8
+	.long	0x58b
+	.byte	0x28
+	.byte	0
+	.uleb128 0x6
+	.long	.LASF108
+	.byte	0x38
+	.value	0x19b
+	.long	0x1010
+	.uleb128 0x3
+	.string	"hdr"
+	.value	0x19c
+	.byte	0xf
+	.long	0xcbd
+	.byte	0
+	.uleb128 0x3
+	.string	"id"
+	.value	0x19d
+	.byte	0x8
+	.long	0x58b
+	.byte	0x28
+	.uleb128 0x1
+	.long	.LASF276
+	.value	0x19e
+	.byte	0x8
+	.long	0x58b
+	.byte	0x30
+	.byte	0
+	.uleb128 0x6
+	.long	.LASF115
+	.byte	0x30
+	.value	0x1a1
+	.long	0x1037
+	.uleb128 0x3
+	.string	"hdr"
+	.value	0x1a2
+	.byte	0xf
+	.long	0xcbd
+	.byte	0
+	.uleb128 0x1
+	.long	.LASF283
+	.value	0x1a3
+	.byte	0x8
+	.long	0x58b
+	.byte	0x28
+	.byte	0
+	.uleb128 0x6
+	.long	.LASF116
+	.byte	0x38
+	.value	0x1a6
+	.long	0x106b
+	.uleb128 0x3
+	.string	"hdr"
+	.value	0x1a7
+	.byte	0xf
+	.long	0xcbd
+	.byte	0
+	.uleb128 0x1
+	.long	.LASF283
+	.value	0x1a8
+	.byte	0x8
+	.long	0x58b
+	.byte	0x28
+	.uleb128 0x3
+	.string	"doc"
+	.value	0x1a9
+	.byte	0x8
+	.long	0x58b
+	.byte	0x30
+	.byte	0
+	.uleb128 0x6
+	.long	.LASF109
+	.byte	0x38
+	.value	0x1ac
+	.long	0x109f
+	.uleb128 0x3
+	.string	"hdr"
+	.value	0x1ad
+	.byte	0xf
+	.long	0xcbd
+	.byte	0
+	.uleb128 0x1
+	.long	.LASF283
+	.value	0x1ae
+	.byte	0x8
+	.long	0x58b
+	.byte	0x28
+	.uleb128 0x1
+	.long	.LASF276
+	.value	0x1af
+	.byte	0x8
+	.long	0x58b
+	.byte	0x30
+	.byte	0
+	.uleb128 0x6
+	.long	.LASF110
+	.byte	0x80
+	.value	0x1b2
+	.long	0x10d3
+	.uleb128 0x3
+	.string	"hdr"
+	.value	0x1b3
+	.byte	0xf
+	.long	0xcbd
+	.byte	0
+	.uleb128 0x1
+	.long	.LASF284
+	.value	0x1b4
+	.byte	0x8
+	.long	0x58b
+	.byte	0x28
+	.uleb128 0x1
+	.long	.LASF285
+	.value	0x1b5
+	.byte	0x8
+	.long	0xd5e
+	.byte	0x30
+	.byte	0
+	.uleb128 0x6
+	.long	.LASF111
+	.byte	0x78
+	.value	0x1b8
+	.long	0x10fa
+	.uleb128 0x3
+	.string	"hdr"
+	.value	0x1b9
+	.byte	0xf
+	.long	0xcbd
+	.byte	0
+	.uleb128 0x1
+	.long	.LASF277
+	.value	0x1ba
+	.byte	0x8
+	.long	0xd5e
+	.byte	0x28
+	.byte	0
+	.uleb128 0x6
+	.long	.LASF112
+	.byte	0x30
+	.value	0x1bd
+	.long	0x1121
+	.uleb128 0x3
+	.string	"hdr"
+	.value	0x1be
+	.byte	0xf
+	.long	0xcbd
+	.byte	0
+	.uleb128 0x1
+	.long	.LASF284
+	.value	0x1bf
+	.byte	0x8
+	.long	0x58b
+	.byte	0x28
+	.byte	0
+	.uleb128 0x6
+	.long	.LASF113
+	.byte	0x38
+	.value	0x1c2
+	.long	0x1155
+	.uleb128 0x3
+	.string	"hdr"
+	.value	0x1c3
+	.byte	0xf
+	.long	0xcbd
+	.byte	0
+	.uleb128 0x3
+	.string	"lhs"
+	.value	0x1c4
+	.byte	0x8
+	.long	0x58b
+	.byte	0x28
+	.uleb128 0x3
+	.string	"rhs"
+	.value	0x1c5
+	.byte	0x8
+	.long	0x58b
+	.byte	0x30
+	.byte	0
+	.uleb128 0x6
+	.long	.LASF114
+	.byte	0x30
+	.value	0x1c8
+	.long	0x117c
+	.uleb128 0x3
+	.string	"hdr"
+	.value	0x1c9
+	.byte	0xf
+	.long	0xcbd
+	.byte	0
+	.uleb128 0x1
+	.long	.LASF284
+	.value	0x1ca
+	.byte	0x8
+	.long	0x58b
+	.byte	0x28
+	.byte	0
+	.uleb128 0x6
+	.long	.LASF117
+	.byte	0x38
+	.value	0x1cd
+	.long	0x11b0
+	.uleb128 0x3
+	.string	"hdr"
+	.value	0x1ce
+	.byte	0xf
+	.long	0xcbd
+	.byte	0
+	.uleb128 0x1
+	.long	.LASF276
+	.value	0x1cf
+	.byte	0x8
+	.long	0x58b
+	.byte	0x28
+	.uleb128 0x1
+	.long	.LASF286
+	.value	0x1d0
+	.byte	0x8
+	.long	0x58b
+	.byte	0x30
+	.byte	0
+	.uleb128 0x6
+	.long	.LASF118
+	.byte	0x38
+	.value	0x1d3
+	.long	0x11e4
+	.uleb128 0x3
+	.string	"hdr"
+	.value	0x1d4
+	.byte	0xf
+	.long	0xcbd
+	.byte	0
+	.uleb128 0x1
+	.long	.LASF280
+	.value	0x1d5
+	.byte	0x8
+	.long	0x58b
+	.byte	0x28
+	.uleb128 0x1
+	.long	.LASF287
+	.value	0x1d6
+	.byte	0x8
+	.long	0x58b
+	.byte	0x30
+	.byte	0
+	.uleb128 0x6
+	.long	.LASF119
+	.byte	0x40
+	.value	0x1d9
+	.long	0x1225
+	.uleb128 0x3
+	.string	"hdr"
+	.value	0x1da
+	.byte	0xf
+	.long	0xcbd
+	.byte	0
+	.uleb128 0x1
+	.long	.LASF282
+	.value	0x1db
+	.byte	0x8
+	.long	0x58b
+	.byte	0x28
+	.uleb128 0x1
+	.long	.LASF288
+	.value	0x1dc
+	.byte	0x8
+	.long	0x58b
+	.byte	0x30
+	.uleb128 0x1
+	.long	.LASF289
+	.value	0x1dd
+	.byte	0x8
+	.long	0x58b
+	.byte	0x38
+	.byte	0
+	.uleb128 0x6
+	.long	.LASF120
+	.byte	0x30
+	.value	0x1e0
+	.long	0x124c
+	.uleb128 0x3
+	.string	"hdr"
+	.value	0x1e1
+	.byte	0xf
+	.long	0xcbd
+	.byte	0
+	.uleb128 0x1
+	.long	.LASF284
+	.value	0x1e2
+	.byte	0x8
+	.long	0x58b
+	.byte	0x28
+	.byte	0
+	.uleb128 0x6
+	.long	.LASF121
+	.byte	0x30
+	.value	0x1e5
+	.long	0x1273
+	.uleb128 0x3
+	.string	"hdr"
+	.value	0x1e6
+	.byte	0xf
+	.long	0xcbd
+	.byte	0
+	.uleb128 0x1
+	.long	.LASF290
+	.value	0x1e7
+	.byte	0x8
+	.long	0x58b
+	.byte	0x28
+	.byte	0
+	.uleb128 0x6
+	.long	.LASF122
+	.byte	0x78
+	.value	0x1ea
+	.long	0x129a
+	.uleb128 0x3
+	.string	"hdr"
+	.value	0x1eb
+	.byte	0xf
+	.long	0xcbd
+	.byte	0
+	.uleb128 0x1
+	.long	.LASF277
+	.value	0x1ec
+	.byte	0x8
+	.long	0xd5e
+	.byte	0x28
+	.byte	0
+	.uleb128 0x6
+	.long	.LASF123
+	.byte	0x40
+	.value	0x1ef
+	.long	0x12db
+	.uleb128 0x3
+	.string	"hdr"
+	.value	0x1f0
+	.byte	0xf
+	.long	0xcbd
+	.byte	0
+	.uleb128 0x3
+	.string	"lhs"
+	.value	0x1f1
+	.byte	0x8
+	.long	0x58b
+	.byte	0x28
+	.uleb128 0x1
+	.long	.LASF291
+	.value	0x1f2
+	.byte	0x8
+	.long	0x58b
+	.byte	0x30
+	.uleb128 0x1
+	.long	.LASF280
+	.value	0x1f3
+	.byte	0x8
+	.long	0x58b
+	.byte	0x38
+	.byte	0
+	.uleb128 0x6
+	.long	.LASF124
+	.byte	0x38
+	.value	0x1f6
+	.long	0x130f
+	.uleb128 0x3
+	.string	"hdr"
+	.value	0x1f7
+	.byte	0xf
+	.long	0xcbd
+	.byte	0
+	.uleb128 0x1
+	.long	.LASF282
+	.value	0x1f8
+	.byte	0x8
+	.long	0x58b
+	.byte	0x28
+	.uleb128 0x1
+	.long	.LASF288
+	.value	0x1f9
+	.byte	0x8
+	.long	0x58b
+	.byte	0x30
+	.byte	0
+	.uleb128 0x6
+	.long	.LASF125
+	.byte	0x38
+	.value	0x1fc
+	.long	0x1343
+	.uleb128 0x3
+	.string	"hdr"
+	.value	0x1fd
+	.byte	0xf
+	.long	0xcbd
+	.byte	0
+	.uleb128 0x1
+	.long	.LASF282
+	.value	0x1fe
+	.byte	0x8
+	.long	0x58b
+	.byte	0x28
+	.uleb128 0x1
+	.long	.LASF292
+	.value	0x1ff
+	.byte	0x8
+	.long	0x58b
+	.byte	0x30
+	.byte	0
+	.uleb128 0x6
+	.long	.LASF126
+	.byte	0x78
+	.value	0x202
+	.long	0x136a
+	.uleb128 0x3
+	.string	"hdr"
+	.value	0x203
+	.byte	0xf
+	.long	0xcbd
+	.byte	0
+	.uleb128 0x1
+	.long	.LASF277
+	.value	0x204
+	.byte	0x8
+	.long	0xd5e
+	.byte	0x28
+	.byte	0
+	.uleb128 0x6
+	.long	.LASF127
+	.byte	0x38
+	.value	0x207
+	.long	0x139e
+	.uleb128 0x3
+	.string	"hdr"
+	.value	0x208
+	.byte	0xf
+	.long	0xcbd
+	.byte	0
+	.uleb128 0x1
+	.long	.LASF293
+	.value	0x209
+	.byte	0x8
+	.long	0x58b
+	.byte	0x28
+	.uleb128 0x1
+	.long	.LASF284
+	.value	0x20a
+	.byte	0x8
+	.long	0x58b
+	.byte	0x30
+	.byte	0
+	.uleb128 0x6
+	.long	.LASF128
+	.byte	0x30
+	.value	0x20d
+	.long	0x13c5
+	.uleb128 0x3
+	.string	"hdr"
+	.value	0x20e
+	.byte	0xf
+	.long	0xcbd
+	.byte	0
+	.uleb128 0x1
+	.long	.LASF281
+	.value	0x20f
+	.byte	0x8
+	.long	0x58b
+	.byte	0x28
+	.byte	0
+	.uleb128 0x6
+	.long	.LASF129
+	.byte	0x38
+	.value	0x212
+	.long	0x13f9
+	.uleb128 0x3
+	.string	"hdr"
+	.value	0x213
+	.byte	0xf
+	.long	0xcbd
+	.byte	0
+	.uleb128 0x1
+	.long	.LASF283
+	.value	0x214
+	.byte	0x8
+	.long	0x58b
+	.byte	0x28
+	.uleb128 0x1
+	.long	.LASF294
+	.value	0x215
+	.byte	0x8
+	.long	0x58b
+	.byte	0x30
+	.byte	0
+	.uleb128 0x6
+	.long	.LASF130
+	.byte	0x30
+	.value	0x218
+	.long	0x1420
+	.uleb128 0x3
+	.string	"hdr"
+	.value	0x219
+	.byte	0xf
+	.long	0xcbd
+	.byte	0
+	.uleb128 0x1
+	.long	.LASF276
+	.value	0x21a
+	.byte	0x8
+	.long	0x58b
+	.byte	0x28
+	.byte	0
+	.uleb128 0x6
+	.long	.LASF131
+	.byte	0x30
+	.value	0x21d
+	.long	0x1447
+	.uleb128 0x3
+	.string	"hdr"
+	.value	0x21e
+	.byte	0xf
+	.long	0xcbd
+	.byte	0
+	.uleb128 0x1
+	.long	.LASF283
+	.value	0x21f
+	.byte	0x8
+	.long	0x58b
+	.byte	0x28
+	.byte	0
+	.uleb128 0x6
+	.long	.LASF132
+	.byte	0x40
+	.value	0x222
+	.long	0x1488
+	.uleb128 0x3
+	.string	"hdr"
+	.value	0x223
+	.byte	0xf
+	.long	0xcbd
+	.byte	0
+	.uleb128 0x1
+	.long	.LASF280
+	.value	0x224
+	.byte	0x8
+	.long	0x58b
+	.byte	0x28
+	.uleb128 0x1
+	.long	.LASF295
+	.value	0x225
+	.byte	0x8
+	.long	0x58b
+	.byte	0x30
+	.uleb128 0x1
+	.long	.LASF296
+	.value	0x226
+	.byte	0x8
+	.long	0x58b
+	.byte	0x38
+	.byte	0
+	.uleb128 0x6
+	.long	.LASF133
+	.byte	0x38
+	.value	0x229
+	.long	0x14bc
+	.uleb128 0x3
+	.string	"hdr"
+	.value	0x22a
+	.byte	0xf
+	.long	0xcbd
+	.byte	0
+	.uleb128 0x1
+	.long	.LASF282
+	.value	0x22b
+	.byte	0x8
+	.long	0x58b
+	.byte	0x28
+	.uleb128 0x1
+	.long	.LASF288
+	.value	0x22c
+	.byte	0x8
+	.long	0x58b
+	.byte	0x30
+	.byte	0
+	.uleb128 0x6
+	.long	.LASF134
+	.byte	0x38
+	.value	0x22f
+	.long	0x14f0
+	.uleb128 0x3
+	.string	"hdr"
+	.value	0x230
+	.byte	0xf
+	.long	0xcbd
+	.byte	0
+	.uleb128 0x1
+	.long	.LASF282
+	.value	0x231
+	.byte	0x8
+	.long	0x58b
+	.byte	0x28
+	.uleb128 0x1
+	.long	.LASF288
+	.value	0x232
+	.byte	0x8
+	.long	0x58b
+	.byte	0x30
+	.byte	0
+	.uleb128 0x6
+	.long	.LASF135
+	.byte	0x30
+	.value	0x235
+	.long	0x1517
+	.uleb128 0x3
+	.string	"hdr"
+	.value	0x236
+	.byte	0xf
+	.long	0xcbd
+	.byte	0
+	.uleb128 0x1
+	.long	.LASF281
+	.value	0x237
+	.byte	0x8
+	.long	0x58b
+	.byte	0x28
+	.byte	0
+	.uleb128 0x6
+	.long	.LASF136
+	.byte	0x38
+	.value	0x23a
+	.long	0x154b
+	.uleb128 0x3
+	.string	"hdr"
+	.value	0x23b
+	.byte	0xf
+	.long	0xcbd
+	.byte	0
+	.uleb128 0x1
+	.long	.LASF281
+	.value	0x23c
+	.byte	0x8
+	.long	0x58b
+	.byte	0x28
+	.uleb128 0x1
+	.long	.LASF283
+	.value	0x23d
+	.byte	0x8
+	.long	0x58b
+	.byte	0x30
+	.byte	0
+	.uleb128 0x6
+	.long	.LASF137
+	.byte	0x40
+	.value	0x240
+	.long	0x158c
+	.uleb128 0x3
+	.string	"hdr"
+	.value	0x241
+	.byte	0xf
+	.long	0xcbd
+	.byte	0
+	.uleb128 0x1
+	.long	.LASF297
+	.value	0x242
+	.byte	0x8
+	.long	0x58b
+	.byte	0x28
+	.uleb128 0x1
+	.long	.LASF298
+	.value	0x243
+	.byte	0x8
+	.long	0x58b
+	.byte	0x30
+	.uleb128 0x1
+	.long	.LASF284
+	.value	0x244
+	.byte	0x8
+	.long	0x58b
+	.byte	0x38
+	.byte	0
+	.uleb128 0x6
+	.long	.LASF138
+	.byte	0x38
+	.value	0x247
+	.long	0x15c0
+	.uleb128 0x3
+	.string	"hdr"
+	.value	0x248
+	.byte	0xf
+	.long	0xcbd
+	.byte	0
+	.uleb128 0x1
+	.long	.LASF299
+	.value	0x249
+	.byte	0x8
+	.long	0x58b
+	.byte	0x28
+	.uleb128 0x1
+	.long	.LASF283
+	.value	0x24a
+	.byte	0x8
+	.long	0x58b
+	.byte	0x30
+	.byte	0
+	.uleb128 0x6
+	.long	.LASF139
+	.byte	0x78
+	.value	0x24d
+	.long	0x15e7
+	.uleb128 0x3
+	.string	"hdr"
+	.value	0x24e
+	.byte	0xf
+	.long	0xcbd
+	.byte	0
+	.uleb128 0x1
+	.long	.LASF277
+	.value	0x24f
+	.byte	0x8
+	.long	0xd5e
+	.byte	0x28
+	.byte	0
+	.uleb128 0x6
+	.long	.LASF140
+	.byte	0x30
+	.value	0x252
+	.long	0x160e
+	.uleb128 0x3
+	.string	"hdr"
+	.value	0x253
+	.byte	0xf
+	.long	0xcbd
+	.byte	0
+	.uleb128 0x1
+	.long	.LASF283
+	.value	0x254
+	.byte	0x8
+	.long	0x58b
+	.byte	0x28
+	.byte	0
+	.uleb128 0x6
+	.long	.LASF141
+	.byte	0x38
+	.value	0x257
+	.long	0x1642
+	.uleb128 0x3
+	.string	"hdr"
+	.value	0x258
+	.byte	0xf
+	.long	0xcbd
+	.byte	0
+	.uleb128 0x3
+	.string	"lhs"
+	.value	0x259
+	.byte	0x8
+	.long	0x58b
+	.byte	0x28
+	.uleb128 0x3
+	.string	"rhs"
+	.value	0x25a
+	.byte	0x8
+	.long	0x58b
+	.byte	0x30
+	.byte	0
+	.uleb128 0x6
+	.long	.LASF142
+	.byte	0x38
+	.value	0x25d
+	.long	0x1676
+	.uleb128 0x3
+	.string	"hdr"
+	.value	0x25e
+	.byte	0xf
+	.long	0xcbd
+	.byte	0
+	.uleb128 0x1
+	.long	.LASF297
+	.value	0x25f
+	.byte	0x8
+	.long	0x58b
+	.byte	0x28
+	.uleb128 0x1
+	.long	.LASF284
+	.value	0x260
+	.byte	0x8
+	.long	0x58b
+	.byte	0x30
+	.byte	0
+	.uleb128 0x6
+	.long	.LASF143
+	.byte	0x28
+	.value	0x263
+	.long	0x1690
+	.uleb128 0x3
+	.string	"hdr"
+	.value	0x264
+	.byte	0xf
+	.long	0xcbd
+	.byte	0
+	.byte	0
+	.uleb128 0x6
+	.long	.LASF144
+	.byte	0x30
+	.value	0x267
+	.long	0x16b7
+	.uleb128 0x3
+	.string	"hdr"
+	.value	0x268
+	.byte	0xf
+	.long	0xcbd
+	.byte	0
+	.uleb128 0x1
+	.long	.LASF283
+	.value	0x269
+	.byte	0x8
+	.long	0x58b
+	.byte	0x28
+	.byte	0
+	.uleb128 0x6
+	.long	.LASF145
+	.byte	0x28
+	.value	0x26c
+	.long	0x16d1
+	.uleb128 0x3
+	.string	"hdr"
+	.value	0x26d
+	.byte	0xf
+	.long	0xcbd
+	.byte	0
+	.byte	0
+	.uleb128 0x6
+	.long	.LASF146
+	.byte	0x78
+	.value	0x270
+	.long	0x16f8
+	.uleb128 0x3
+	.string	"hdr"
+	.value	0x271
+	.byte	0xf
+	.long	0xcbd
+	.byte	0
+	.uleb128 0x1
+	.long	.LASF277
+	.value	0x272
+	.byte	0x8
+	.long	0xd5e
+	.byte	0x28
+	.byte	0
+	.uleb128 0x6
+	.long	.LASF147
+	.byte	0x30
+	.value	0x275
+	.long	0x171f
+	.uleb128 0x3
+	.string	"hdr"
+	.value	0x276
+	.byte	0xf
+	.long	0xcbd
+	.byte	0
+	.uleb128 0x1
+	.long	.LASF283
+	.value	0x277
+	.byte	0x8
+	.long	0x58b
+	.byte	0x28
+	.byte	0
+	.uleb128 0x6
+	.long	.LASF148
+	.byte	0x40
+	.value	0x27a
+	.long	0x1760
+	.uleb128 0x3
+	.string	"hdr"
+	.value	0x27b
+	.byte	0xf
+	.long	0xcbd
+	.byte	0
+	.uleb128 0x1
+	.long	.LASF297
+	.value	0x27c
+	.byte	0x8
+	.long	0x58b
+	.byte	0x28
+	.uleb128 0x1
+	.long	.LASF298
+	.value	0x27d
+	.byte	0x8
+	.long	0x58b
+	.byte	0x30
+	.uleb128 0x1
+	.long	.LASF284
+	.value	0x27e
+	.byte	0x8
+	.long	0x58b
+	.byte	0x38
+	.byte	0
+	.uleb128 0x6
+	.long	.LASF149
+	.byte	0x38
+	.value	0x281
+	.long	0x1794
+	.uleb128 0x3
+	.string	"hdr"
+	.value	0x282
+	.byte	0xf
+	.long	0xcbd
+	.byte	0
+	.uleb128 0x1
+	.long	.LASF283
+	.value	0x283
+	.byte	0x8
+	.long	0x58b
+	.byte	0x28
+	.uleb128 0x1
+	.long	.LASF276
+	.value	0x284
+	.byte	0x8
+	.long	0x58b
+	.byte	0x30
+	.byte	0
+	.uleb128 0x6
+	.long	.LASF150
+	.byte	0x38
+	.value	0x287
+	.long	0x17c8
+	.uleb128 0x3
+	.string	"hdr"
+	.value	0x288
+	.byte	0xf
+	.long	0xcbd
+	.byte	0
+	.uleb128 0x1
+	.long	.LASF282
+	.value	0x289
+	.byte	0x8
+	.long	0x58b
+	.byte	0x28
+	.uleb128 0x1
+	.long	.LASF288
+	.value	0x28a
+	.byte	0x8
+	.long	0x58b
+	.byte	0x30
+	.byte	0
+	.uleb128 0x6
+	.long	.LASF151
+	.byte	0x30
+	.value	0x28d
+	.long	0x17ef
+	.uleb128 0x3
+	.string	"hdr"
+	.value	0x28e
+	.byte	0xf
+	.long	0xcbd
+	.byte	0
+	.uleb128 0x1
+	.long	.LASF283
+	.value	0x28f
+	.byte	0x8
+	.long	0x58b
+	.byte	0x28
+	.byte	0
+	.uleb128 0x6
+	.long	.LASF152
+	.byte	0x30
+	.value	0x292
+	.long	0x1816
+	.uleb128 0x3
+	.string	"hdr"
+	.value	0x293
+	.byte	0xf
+	.long	0xcbd
+	.byte	0
+	.uleb128 0x1
+	.long	.LASF284
+	.value	0x294
+	.byte	0x8
+	.long	0x58b
+	.byte	0x28
+	.byte	0
+	.uleb128 0x6
+	.long	.LASF153
+	.byte	0x80
+	.value	0x297
+	.long	0x184a
+	.uleb128 0x3
+	.string	"hdr"
+	.value	0x298
+	.byte	0xf
+	.long	0xcbd
+	.byte	0
+	.uleb128 0x1
+	.long	.LASF284
+	.value	0x299
+	.byte	0x8
+	.long	0x58b
+	.byte	0x28
+	.uleb128 0x1
+	.long	.LASF285
+	.value	0x29a
+	.byte	0x8
+	.long	0xd5e
+	.byte	0x30
+	.byte	0
+	.uleb128 0x6
+	.long	.LASF154
+	.byte	0x38
+	.value	0x29d
+	.long	0x187e
+	.uleb128 0x3
+	.string	"hdr"
+	.value	0x29e
+	.byte	0xf
+	.long	0xcbd
+	.byte	0
+	.uleb128 0x1
+	.long	.LASF283
+	.value	0x29f
+	.byte	0x8
+	.long	0x58b
+	.byte	0x28
+	.uleb128 0x1
+	.long	.LASF276
+	.value	0x2a0
+	.byte	0x8
+	.long	0x58b
+	.byte	0x30
+	.byte	0
+	.uleb128 0x6
+	.long	.LASF155
+	.byte	0x38
+	.value	0x2a3
+	.long	0x18b2
+	.uleb128 0x3
+	.string	"hdr"
+	.value	0x2a4
+	.byte	0xf
+	.long	0xcbd
+	.byte	0
+	.uleb128 0x1
+	.long	.LASF283
+	.value	0x2a5
+	.byte	0x8
+	.long	0x58b
+	.byte	0x28
+	.uleb128 0x1
+	.long	.LASF276
+	.value	0x2a6
+	.byte	0x8
+	.long	0x58b
+	.byte	0x30
+	.byte	0
+	.uleb128 0x6
+	.long	.LASF156
+	.byte	0x30
+	.value	0x2a9
+	.long	0x18d9
+	.uleb128 0x3
+	.string	"hdr"
+	.value	0x2aa
+	.byte	0xf
+	.long	0xcbd
+	.byte	0
+	.uleb128 0x1
+	.long	.LASF287
+	.value	0x2ab
+	.byte	0x8
+	.long	0x58b
+	.byte	0x28
+	.byte	0
+	.uleb128 0x6
+	.long	.LASF157
+	.byte	0x38
+	.value	0x2ae
+	.long	0x190d
+	.uleb128 0x3
+	.string	"hdr"
+	.value	0x2af
+	.byte	0xf
+	.long	0xcbd
+	.byte	0
+	.uleb128 0x1
+	.long	.LASF300
+	.value	0x2b0
+	.byte	0x8
+	.long	0x58b
+	.byte	0x28
+	.uleb128 0x1
+	.long	.LASF301
+	.value	0x2b1
+	.byte	0x8
+	.long	0x58b
+	.byte	0x30
+	.byte	0
+	.uleb128 0x6
+	.long	.LASF158
+	.byte	0x78
+	.value	0x2b4
+	.long	0x1934
+	.uleb128 0x3
+	.string	"hdr"
+	.value	0x2b5
+	.byte	0xf
+	.long	0xcbd
+	.byte	0
+	.uleb128 0x1
+	.long	.LASF277
+	.value	0x2b6
+	.byte	0x8
+	.long	0xd5e
+	.byte	0x28
+	.byte	0
+	.uleb128 0x6
+	.long	.LASF159
+	.byte	0x30
+	.value	0x2b9
+	.long	0x195b
+	.uleb128 0x3
+	.string	"hdr"
+	.value	0x2ba
+	.byte	0xf
+	.long	0xcbd
+	.byte	0
+	.uleb128 0x1
+	.long	.LASF302
+	.value	0x2bb
+	.byte	0x8
+	.long	0x58b
+	.byte	0x28
+	.byte	0
+	.uleb128 0x6
+	.long	.LASF160
+	.byte	0x48
+	.value	0x2be
+	.long	0x19a8
+	.uleb128 0x3
+	.string	"hdr"
+	.value	0x2bf
+	.byte	0xf
+	.long	0xcbd
+	.byte	0
+	.uleb128 0x1
+	.long	.LASF283
+	.value	0x2c0
+	.byte	0x8
+	.long	0x58b
+	.byte	0x28
+	.uleb128 0x3
+	.string	"id"
+	.value	0x2c1
+	.byte	0x8
+	.long	0x58b
+	.byte	0x30
+	.uleb128 0x1
+	.long	.LASF286
+	.value	0x2c2
+	.byte	0x8
+	.long	0x58b
+	.byte	0x38
+	.uleb128 0x1
+	.long	.LASF303
+	.value	0x2c3
+	.byte	0x8
+	.long	0x58b
+	.byte	0x40
+	.byte	0
+	.uleb128 0x6
+	.long	.LASF161
+	.byte	0x38
+	.value	0x2c6
+	.long	0x19dc
+	.uleb128 0x3
+	.string	"hdr"
+	.value	0x2c7
+	.byte	0xf
+	.long	0xcbd
+	.byte	0
+	.uleb128 0x1
+	.long	.LASF299
+	.value	0x2c8
+	.byte	0x8
+	.long	0x58b
+	.byte	0x28
+	.uleb128 0x1
+	.long	.LASF283
+	.value	0x2c9
+	.byte	0x8
+	.long	0x58b
+	.byte	0x30
+	.byte	0
+	.uleb128 0x6
+	.long	.LASF162
+	.byte	0x30
+	.value	0x2cc
+	.long	0x1a03
+	.uleb128 0x3
+	.string	"hdr"
+	.value	0x2cd
+	.byte	0xf
+	.long	0xcbd
+	.byte	0
+	.uleb128 0x1
+	.long	.LASF280
+	.value	0x2ce
+	.byte	0x8
+	.long	0x58b
+	.byte	0x28
+	.byte	0
+	.uleb128 0x6
+	.long	.LASF163
+	.byte	0x38
+	.value	0x2d1
+	.long	0x1a37
+	.uleb128 0x3
+	.string	"hdr"
+	.value	0x2d2
+	.byte	0xf
+	.long	0xcbd
+	.byte	0
+	.uleb128 0x1
+	.long	.LASF278
+	.value	0x2d3
+	.byte	0x8
+	.long	0x58b
+	.byte	0x28
+	.uleb128 0x1
+	.long	.LASF304
+	.value	0x2d4
+	.byte	0x8
+	.long	0x58b
+	.byte	0x30
+	.byte	0
+	.uleb128 0x6
+	.long	.LASF164
+	.byte	0x30
+	.value	0x2d7
+	.long	0x1a5e
+	.uleb128 0x3
+	.string	"hdr"
+	.value	0x2d8
+	.byte	0xf
+	.long	0xcbd
+	.byte	0
+	.uleb128 0x1
+	.long	.LASF287
+	.value	0x2d9
+	.byte	0x8
+	.long	0x58b
+	.byte	0x28
+	.byte	0
+	.uleb128 0xe
+	.long	.LASF305
+	.byte	0x10
+	.byte	0xf
+	.byte	0x14
+	.byte	0x10
+	.long	0x1a86
+	.uleb128 0x8
+	.long	.LASF175
+	.byte	0xf
+	.byte	0x14
+	.byte	0x28
+	.long	0x322
+	.byte	0
+	.uleb128 0x8
+	.long	.LASF79
+	.byte	0xf
+	.byte	0x14
+	.byte	0x46
+	.long	0x1a86
+	.byte	0x8
+	.byte	0
+	.uleb128 0x7
+	.long	0x1a5e
+	.uleb128 0xb
+	.long	.LASF306
+	.byte	0xf
+	.byte	0x14
+	.byte	0x4f
+	.long	0x1a86
+	.uleb128 0x2c
+	.long	.LASF307
+	.value	0x140
+	.byte	0xf
+	.byte	0x14
+	.byte	0x62
+	.long	0x1c92
+	.uleb128 0x8
+	.long	.LASF308
+	.byte	0xf
+	.byte	0x14
+	.byte	0x86
+	.long	0x1cab
+	.byte	0
+	.uleb128 0x8
+	.long	.LASF309
+	.byte	0xf
+	.byte	0x14
+	.byte	0xaf
+	.long	0x1cbf
+	.byte	0x8
+	.uleb128 0x8
+	.long	.LASF310
+	.byte	0xf
+	.byte	0x14
+	.byte	0xd1
+	.long	0x1cd4
+	.byte	0x10
+	.uleb128 0x8
+	.long	.LASF311
+	.byte	0xf
+	.byte	0x14
+	.byte	0xf2
+	.long	0x1ce8
+	.byte	0x18
+	.uleb128 0xa
+	.long	.LASF312
+	.value	0x116
+	.long	0x1cfd
+	.byte	0x20
+	.uleb128 0xa
+	.long	.LASF313
+	.value	0x136
+	.long	0x1d34
+	.byte	0x28
+	.uleb128 0xa
+	.long	.LASF314
+	.value	0x17c
+	.long	0x1d57
+	.byte	0x30
+	.uleb128 0xa
+	.long	.LASF315
+	.value	0x1c7
+	.long	0x1d6b
+	.byte	0x38
+	.uleb128 0xa
+	.long	.LASF316
+	.value	0x1e6
+	.long	0x1d7b
+	.byte	0x40
+	.uleb128 0xa
+	.long	.LASF317
+	.value	0x207
+	.long	0x1d94
+	.byte	0x48
+	.uleb128 0xa
+	.long	.LASF318
+	.value	0x230
+	.long	0x1db9
+	.byte	0x50
+	.uleb128 0xa
+	.long	.LASF319
+	.value	0x26a
+	.long	0x1dd7
+	.byte	0x58
+	.uleb128 0xa
+	.long	.LASF320
+	.value	0x2b4
+	.long	0x1e09
+	.byte	0x60
+	.uleb128 0x1d
+	.string	"Elt"
+	.value	0x2fc
+	.long	0x1e22
+	.byte	0x68
+	.uleb128 0xa
+	.long	.LASF321
+	.value	0x324
+	.long	0x1e3b
+	.byte	0x70
+	.uleb128 0xa
+	.long	.LASF322
+	.value	0x34d
+	.long	0x1d6b
+	.byte	0x78
+	.uleb128 0xa
+	.long	.LASF323
+	.value	0x36e
+	.long	0x1e4f
+	.byte	0x80
+	.uleb128 0xa
+	.long	.LASF324
+	.value	0x38c
+	.long	0x1e68
+	.byte	0x88
+	.uleb128 0xa
+	.long	.LASF325
+	.value	0x3b3
+	.long	0x1e68
+	.byte	0x90
+	.uleb128 0xa
+	.long	.LASF326
+	.value	0x3db
+	.long	0x1e68
+	.byte	0x98
+	.uleb128 0xa
+	.long	.LASF327
+	.value	0x408
+	.long	0x1d6b
+	.byte	0xa0
+	.uleb128 0xa
+	.long	.LASF328
+	.value	0x429
+	.long	0x1d94
+	.byte	0xa8
+	.uleb128 0xa
+	.long	.LASF329
+	.value	0x458
+	.long	0x1e95
+	.byte	0xb0
+	.uleb128 0xa
+	.long	.LASF330
+	.value	0x493
+	.long	0x1eb3
+	.byte	0xb8
+	.uleb128 0x1d
+	.string	"Map"
+	.value	0x4dc
+	.long	0x1ecc
+	.byte	0xc0
+	.uleb128 0xa
+	.long	.LASF331
+	.value	0x511
+	.long	0x1ecc
+	.byte	0xc8
+	.uleb128 0xa
+	.long	.LASF332
+	.value	0x547
+	.long	0x1d6b
+	.byte	0xd0
+	.uleb128 0xa
+	.long	.LASF333
+	.value	0x56b
+	.long	0x1d6b
+	.byte	0xd8
+	.uleb128 0xa
+	.long	.LASF334
+	.value	0x590
+	.long	0x1d94
+	.byte	0xe0
+	.uleb128 0xa
+	.long	.LASF335
+	.value	0x5bf
+	.long	0x1d94
+	.byte	0xe8
+	.uleb128 0xa
+	.long	.LASF336
+	.value	0x5e9
+	.long	0x1ee5
+	.byte	0xf0
+	.uleb128 0xa
+	.long	.LASF337
+	.value	0x60c
+	.long	0x1f03
+	.byte	0xf8
+	.uleb128 0xf
+	.long	.LASF338
+	.value	0x64c
+	.long	0x1f1c
+	.value	0x100
+	.uleb128 0xf
+	.long	.LASF339
+	.value	0x67a
+	.long	0x1f35
+	.value	0x108
+	.uleb128 0xf
+	.long	.LASF340
+	.value	0x69c
+	.long	0x1f53
+	.value	0x110
+	.uleb128 0xf
+	.long	.LASF341
+	.value	0x6e4
+	.long	0x1f71
+	.value	0x118
+	.uleb128 0xf
+	.long	.LASF342
+	.value	0x725
+	.long	0x1f8b
+	.value	0x120
+	.uleb128 0xf
+	.long	.LASF343
+	.value	0x74f
+	.long	0x1fc2
+	.value	0x128
+	.uleb128 0xf
+	.long	.LASF344
+	.value	0x78e
+	.long	0x1fef
+	.value	0x130
+	.uleb128 0xf
+	.long	.LASF345
+	.value	0x7e6
+	.long	0x200d
+	.value	0x138
+	.byte	0
+	.uleb128 0x19
+	.long	0x1a97
+	.uleb128 0x9
+	.long	0x1a8b
+	.long	0x1cab
+	.uleb128 0x2
+	.long	0x322
+	.uleb128 0x2
+	.long	0x1a8b
+	.byte	0
+	.uleb128 0x7
+	.long	0x1c97
+	.uleb128 0x9
+	.long	0x1a8b
+	.long	0x1cbf
+	.uleb128 0x2
+	.long	0x322
+	.byte	0
+	.uleb128 0x7
+	.long	0x1cb0
+	.uleb128 0x9
+	.long	0x1a8b
+	.long	0x1cd4
+	.uleb128 0x2
+	.long	0x2e
+	.uleb128 0x1e
+	.byte	0
+	.uleb128 0x7
+	.long	0x1cc4
+	.uleb128 0x9
+	.long	0x1a8b
+	.long	0x1ce8
+	.uleb128 0x2
+	.long	0x474
+	.byte	0
+	.uleb128 0x7
+	.long	0x1cd9
+	.uleb128 0x9
+	.long	0x1a8b
+	.long	0x1cfd
+	.uleb128 0x2
+	.long	0x322
+	.uleb128 0x1e
+	.byte	0
+	.uleb128 0x7
+	.long	0x1ced
+	.uleb128 0x9
+	.long	0x2fb
+	.long	0x1d1b
+	.uleb128 0x2
+	.long	0x1a8b
+	.uleb128 0x2
+	.long	0x1a8b
+	.uleb128 0x2
+	.long	0x1d1b
+	.byte	0
+	.uleb128 0x7
+	.long	0x1d20
+	.uleb128 0x9
+	.long	0x2fb
+	.long	0x1d34
+	.uleb128 0x2
+	.long	0x322
+	.uleb128 0x2
+	.long	0x322
+	.byte	0
+	.uleb128 0x7
+	.long	0x1d02
+	.uleb128 0x9
+	.long	0x322
+	.long	0x1d57
+	.uleb128 0x2
+	.long	0x1a8b
+	.uleb128 0x2
+	.long	0x322
+	.uleb128 0x2
+	.long	0x1d1b
+	.uleb128 0x2
+	.long	0x479
+	.byte	0
+	.uleb128 0x7
+	.long	0x1d39
+	.uleb128 0x9
+	.long	0x1a8b
+	.long	0x1d6b
+	.uleb128 0x2
+	.long	0x1a8b
+	.byte	0
+	.uleb128 0x7
+	.long	0x1d5c
+	.uleb128 0x11
+	.long	0x1d7b
+	.uleb128 0x2
+	.long	0x1a8b
+	.byte	0
+	.uleb128 0x7
+	.long	0x1d70
+	.uleb128 0x9
+	.long	0x1a8b
+	.long	0x1d94
+	.uleb128 0x2
+	.long	0x1a8b
+	.uleb128 0x2
+	.long	0x1a8b
+	.byte	0
+	.uleb128 0x7
+	.long	0x1d80
+	.uleb128 0x11
+	.long	0x1da9
+	.uleb128 0x2
+	.long	0x1a8b
+	.uleb128 0x2
+	.long	0x1da9
+	.byte	0
+	.uleb128 0x7
+	.long	0x1dae
+	.uleb128 0x11
+	.long	0x1db9
+	.uleb128 0x2
+	.long	0x322
+	.byte	0
+	.uleb128 0x7
+	.long	0x1d99
+	.uleb128 0x9
+	.long	0x1a8b
+	.long	0x1dd7
+	.uleb128 0x2
+	.long	0x1a8b
+	.uleb128 0x2
+	.long	0x1a8b
+	.uleb128 0x2
+	.long	0x1da9
+	.byte	0
+	.uleb128 0x7
+	.long	0x1dbe
+	.uleb128 0x9
+	.long	0x1a8b
+	.long	0x1df5
+	.uleb128 0x2
+	.long	0x1a8b
+	.uleb128 0x2
+	.long	0x1da9
+	.uleb128 0x2
+	.long	0x1df5
+	.byte	0
+	.uleb128 0x7
+	.long	0x1dfa
+	.uleb128 0x9
+	.long	0x2fb
+	.long	0x1e09
+	.uleb128 0x2
+	.long	0x322
+	.byte	0
+	.uleb128 0x7
+	.long	0x1ddc
+	.uleb128 0x9
+	.long	0x322
+	.long	0x1e22
+	.uleb128 0x2
+	.long	0x1a8b
+	.uleb128 0x2
+	.long	0x308
+	.byte	0
+	.uleb128 0x7
+	.long	0x1e0e
+	.uleb128 0x9
+	.long	0x1a8b
+	.long	0x1e3b
+	.uleb128 0x2
+	.long	0x1a8b
+	.uleb128 0x2
+	.long	0x308
+	.byte	0
+	.uleb128 0x7
+	.long	0x1e27
+	.uleb128 0x9
+	.long	0x308
+	.long	0x1e4f
+	.uleb128 0x2
+	.long	0x1a8b
+	.byte	0
+	.uleb128 0x7
+	.long	0x1e40
+	.uleb128 0x9
+	.long	0x2fb
+	.long	0x1e68
+	.uleb128 0x2
+	.long	0x1a8b
+	.uleb128 0x2
+	.long	0x308
+	.byte	0
+	.uleb128 0x7
+	.long	0x1e54
+	.uleb128 0x9
+	.long	0x1a8b
+	.long	0x1e81
+	.uleb128 0x2
+	.long	0x1a8b
+	.uleb128 0x2
+	.long	0x1e81
+	.byte	0
+	.uleb128 0x7
+	.long	0x1e86
+	.uleb128 0x9
+	.long	0x322
+	.long	0x1e95
+	.uleb128 0x2
+	.long	0x322
+	.byte	0
+	.uleb128 0x7
+	.long	0x1e6d
+	.uleb128 0x9
+	.long	0x1a8b
+	.long	0x1eb3
+	.uleb128 0x2
+	.long	0x1a8b
+	.uleb128 0x2
+	.long	0x1a8b
+	.uleb128 0x2
+	.long	0x1e81
+	.byte	0
+	.uleb128 0x7
+	.long	0x1e9a
+	.uleb128 0x9
+	.long	0x1a8b
+	.long	0x1ecc
+	.uleb128 0x2
+	.long	0x1e81
+	.uleb128 0x2
+	.long	0x1a8b
+	.byte	0
+	.uleb128 0x7
+	.long	0x1eb8
+	.uleb128 0x9
+	.long	0x2fb
+	.long	0x1ee5
+	.uleb128 0x2
+	.long	0x1a8b
+	.uleb128 0x2
+	.long	0x322
+	.byte	0
+	.uleb128 0x7
+	.long	0x1ed1
+	.uleb128 0x9
+	.long	0x2fb
+	.long	0x1f03
+	.uleb128 0x2
+	.long	0x1a8b
+	.uleb128 0x2
+	.long	0x322
+	.uleb128 0x2
+	.long	0x1d1b
+	.byte	0
+	.uleb128 0x7
+	.long	0x1eea
+	.uleb128 0x9
+	.long	0x2fb
+	.long	0x1f1c
+	.uleb128 0x2
+	.long	0x1a8b
+	.uleb128 0x2
+	.long	0x1a8b
+	.byte	0
+	.uleb128 0x7
+	.long	0x1f08
+	.uleb128 0x9
+	.long	0x2e
+	.long	0x1f35
+	.uleb128 0x2
+	.long	0x1a8b
+	.uleb128 0x2
+	.long	0x322
+	.byte	0
+	.uleb128 0x7
+	.long	0x1f21
+	.uleb128 0x9
+	.long	0x2e
+	.long	0x1f53
+	.uleb128 0x2
+	.long	0x1a8b
+	.uleb128 0x2
+	.long	0x322
+	.uleb128 0x2
+	.long	0x1d1b
+	.byte	0
+	.uleb128 0x7
+	.long	0x1f3a
+	.uleb128 0x9
+	.long	0x1a8b
+	.long	0x1f71
+	.uleb128 0x2
+	.long	0x1a8b
+	.uleb128 0x2
+	.long	0x322
+	.uleb128 0x2
+	.long	0x1d1b
+	.byte	0
+	.uleb128 0x7
+	.long	0x1f58
+	.uleb128 0x11
+	.long	0x1f86
+	.uleb128 0x2
+	.long	0x1f86
+	.uleb128 0x2
+	.long	0x1a8b
+	.byte	0
+	.uleb128 0x7
+	.long	0x322
+	.uleb128 0x7
+	.long	0x1f76
+	.uleb128 0x9
+	.long	0x2e
+	.long	0x1fa9
+	.uleb128 0x2
+	.long	0x2c3
+	.uleb128 0x2
+	.long	0x1a8b
+	.uleb128 0x2
+	.long	0x1fa9
+	.byte	0
+	.uleb128 0x7
+	.long	0x1fae
+	.uleb128 0x9
+	.long	0x2e
+	.long	0x1fc2
+	.uleb128 0x2
+	.long	0x2c3
+	.uleb128 0x2
+	.long	0x322
+	.byte	0
+	.uleb128 0x7
+	.long	0x1f90
+	.uleb128 0x9
+	.long	0x2e
+	.long	0x1fef
+	.uleb128 0x2
+	.long	0x2c3
+	.uleb128 0x2
+	.long	0x1a8b
+	.uleb128 0x2
+	.long	0x1fa9
+	.uleb128 0x2
+	.long	0x80
+	.uleb128 0x2
+	.long	0x80
+	.uleb128 0x2
+	.long	0x80
+	.byte	0
+	.uleb128 0x7
+	.long	0x1fc7
+	.uleb128 0x9
+	.long	0x2e
+	.long	0x200d
+	.uleb128 0x2
+	.long	0x36e
+	.uleb128 0x2
+	.long	0x32f
+	.uleb128 0x2
+	.long	0x1a8b
+	.byte	0
+	.uleb128 0x7
+	.long	0x1ff4
+	.uleb128 0x2d
+	.long	.LASF362
+	.byte	0xf
+	.byte	0x14
+	.value	0x83b
+	.long	0x201f
+	.uleb128 0x7
+	.long	0x1c92
+	.uleb128 0x13
+	.long	.LASF350
+	.byte	0x1a
+	.uleb128 0x18
+	.long	.LASF346
+	.byte	0x6
+	.long	0x2044
+	.uleb128 0x2
+	.long	0x322
+	.uleb128 0x2
+	.long	0x322
+	.uleb128 0x2
+	.long	0x322
+	.byte	0
+	.uleb128 0x2e
+	.long	.LASF348
+	.byte	0xe
+	.value	0x445
+	.byte	0xe
+	.long	0x58b
+	.long	0x205b
+	.uleb128 0x2
+	.long	0x58b
+	.byte	0
+	.uleb128 0x18
+	.long	.LASF347
+	.byte	0x9
+	.long	0x2075
+	.uleb128 0x2
+	.long	0x322
+	.uleb128 0x2
+	.long	0x2ee
+	.uleb128 0x2
+	.long	0x2ee
+	.byte	0
+	.uleb128 0x2f
+	.long	.LASF349
+	.byte	0x11
+	.byte	0x43
+	.byte	0x7
+	.long	0x58b
+	.long	0x208b
+	.uleb128 0x2
+	.long	0x1a8b
+	.byte	0
+	.uleb128 0x13
+	.long	.LASF351
+	.byte	0x19
+	.uleb128 0x13
+	.long	.LASF352
+	.byte	0x18
+	.uleb128 0x18
+	.long	.LASF353
+	.byte	0x15
+	.long	0x20ac
+	.uleb128 0x2
+	.long	0x80
+	.uleb128 0x2
+	.long	0x20ac
+	.byte	0
+	.uleb128 0x7
+	.long	0x20b1
+	.uleb128 0x30
+	.uleb128 0x13
+	.long	.LASF354
+	.byte	0x17
+	.uleb128 0x31
+	.long	.LASF363
+	.byte	0x1
+	.byte	0x13
+	.byte	0x1
+	.quad	.LFB1
+	.quad	.LFE1-.LFB1
+	.uleb128 0x1
+	.byte	0x9c
+	.long	0x20f3
+	.uleb128 0x1f
+	.long	.LASF355
+	.byte	0x15
+	.byte	0xd
+	.long	0x1a8b
+	.uleb128 0x2
+	.byte	0x91
+	.sleb128 -24
+	.uleb128 0x1f
+	.long	.LASF356
+	.byte	0x16
+	.byte	0x8
+	.long	0x58b
+	.uleb128 0x2
+	.byte	0x91
+	.sleb128 -32
+	.byte	0
+	.uleb128 0x32
+	.long	.LASF364
+	.byte	0x1
+	.byte	0xb
+	.byte	0x1
+	.quad	.LFB0
+	.quad	.LFE0-.LFB0
+	.uleb128 0x1
+	.byte	0x9c
+	.byte	0
+	.section	.debug_abbrev,"",@progbits
+.Ldebug_abbrev0:
+	.uleb128 0x1
+	.uleb128 0xd
+	.byte	0
+	.uleb128 0x3
+	.uleb128 0xe
+	.uleb128 0x3a
+	.uleb128 0x21
+	.sleb128 14
+	.uleb128 0x3b
+	.uleb128 0x5
+	.uleb128 0x39
+	.uleb128 0xb
+	.uleb128 0x49
+	.uleb128 0x13
+	.uleb128 0x38
+	.uleb128 0xb
+	.byte	0
+	.byte	0
+	.uleb128 0x2
+	.uleb128 0x5
+	.byte	0
+	.uleb128 0x49
+	.uleb128 0x13
+	.byte	0
+	.byte	0
+	.uleb128 0x3
+	.uleb128 0xd
+	.byte	0
+	.uleb128 0x3
+	.uleb128 0x8
+	.uleb128 0x3a
+	.uleb128 0x21
+	.sleb128 14
+	.uleb128 0x3b
+	.uleb128 0x5
+	.uleb128 0x39
+	.uleb128 0xb
+	.uleb128 0x49
+	.uleb128 0x13
+	.uleb128 0x38
+	.uleb128 0xb
+	.byte	0
+	.byte	0
+	.uleb128 0x4
+	.uleb128 0x28
+	.byte	0
+	.uleb128 0x3
+	.uleb128 0xe
+	.uleb128 0x1c
+	.uleb128 0xb
+	.byte	0
+	.byte	0
+	.uleb128 0x5
+	.uleb128 0xd
+	.byte	0
+	.uleb128 0x3
+	.uleb128 0xe
+	.uleb128 0x3a
+	.uleb128 0x21
+	.sleb128 14
+	.uleb128 0x3b
+	.uleb128 0x5
+	.uleb128 0x39
+	.uleb128 0xb
+	.uleb128 0x49
+	.uleb128 0x13
+	.byte	0
+	.byte	0
+	.uleb128 0x6
+	.uleb128 0x13
+	.byte	0x1
+	.uleb128 0x3
+	.uleb128 0xe
+	.uleb128 0xb
+	.uleb128 0xb
+	.uleb128 0x3a
+	.uleb128 0x21
+	.sleb128 14
+	.uleb128 0x3b
+	.uleb128 0x5
+	.uleb128 0x39
+	.uleb128 0x21
+	.sleb128 8
+	.uleb128 0x1
+	.uleb128 0x13
+	.byte	0
+	.byte	0
+	.uleb128 0x7
+	.uleb128 0xf
+	.byte	0
+	.uleb128 0xb
+	.uleb128 0x21
+	.sleb128 8
+	.uleb128 0x49
+	.uleb128 0x13
+	.byte	0
+	.byte	0
+	.uleb128 0x8
+	.uleb128 0xd
+	.byte	0
+	.uleb128 0x3
+	.uleb128 0xe
+	.uleb128 0x3a
+	.uleb128 0xb
+	.uleb128 0x3b
+	.uleb128 0xb
+	.uleb128 0x39
+	.uleb128 0xb
+	.uleb128 0x49
+	.uleb128 0x13
+	.uleb128 0x38
+	.uleb128 0xb
+	.byte	0
+	.byte	0
+	.uleb128 0x9
+	.uleb128 0x15
+	.byte	0x1
+	.uleb128 0x27
+	.uleb128 0x19
+	.uleb128 0x49
+	.uleb128 0x13
+	.uleb128 0x1
+	.uleb128 0x13
+	.byte	0
+	.byte	0
+	.uleb128 0xa
+	.uleb128 0xd
+	.byte	0
+	.uleb128 0x3
+	.uleb128 0xe
+	.uleb128 0x3a
+	.uleb128 0x21
+	.sleb128 15
+	.uleb128 0x3b
+	.uleb128 0x21
+	.sleb128 20
+	.uleb128 0x39
+	.uleb128 0x5
+	.uleb128 0x49
+	.uleb128 0x13
+	.uleb128 0x38
+	.uleb128 0xb
+	.byte	0
+	.byte	0
+	.uleb128 0xb
+	.uleb128 0x16
+	.byte	0
+	.uleb128 0x3
+	.uleb128 0xe
+	.uleb128 0x3a
+	.uleb128 0xb
+	.uleb128 0x3b
+	.uleb128 0xb
+	.uleb128 0x39
+	.uleb128 0xb
+	.uleb128 0x49
+	.uleb128 0x13
+	.byte	0
+	.byte	0
+	.uleb128 0xc
+	.uleb128 0x24
+	.byte	0
+	.uleb128 0xb
+	.uleb128 0xb
+	.uleb128 0x3e
+	.uleb128 0xb
+	.uleb128 0x3
+	.uleb128 0xe
+	.byte	0
+	.byte	0
+	.uleb128 0xd
+	.uleb128 0x16
+	.byte	0
+	.uleb128 0x3
+	.uleb128 0xe
+	.uleb128 0x3a
+	.uleb128 0xb
+	.uleb128 0x3b
+	.uleb128 0x5
+	.uleb128 0x39
+	.uleb128 0xb
+	.uleb128 0x49
+	.uleb128 0x13
+	.byte	0
+	.byte	0
+	.uleb128 0xe
+	.uleb128 0x13
+	.byte	0x1
+	.uleb128 0x3
+	.uleb128 0xe
+	.uleb128 0xb
+	.uleb128 0xb
+	.uleb128 0x3a
+	.uleb128 0xb
+	.uleb128 0x3b
+	.uleb128 0xb
+	.uleb128 0x39
+	.uleb128 0xb
+	.uleb128 0x1
+	.uleb128 0x13
+	.byte	0
+	.byte	0
+	.uleb128 0xf
+	.uleb128 0xd
+	.byte	0
+	.uleb128 0x3
+	.uleb128 0xe
+	.uleb128 0x3a
+	.uleb128 0x21
+	.sleb128 15
+	.uleb128 0x3b
+	.uleb128 0x21
+	.sleb128 20
+	.uleb128 0x39
+	.uleb128 0x5
+	.uleb128 0x49
+	.uleb128 0x13
+	.uleb128 0x38
+	.uleb128 0x5
+	.byte	0
+	.byte	0
+	.uleb128 0x10
+	.uleb128 0x13
+	.byte	0
+	.uleb128 0x3
+	.uleb128 0xe
+	.uleb128 0x3c
+	.uleb128 0x19
+	.byte	0
+	.byte	0
+	.uleb128 0x11
+	.uleb128 0x15
+	.byte	0x1
+	.uleb128 0x27
+	.uleb128 0x19
+	.uleb128 0x1
+	.uleb128 0x13
+	.byte	0
+	.byte	0
+	.uleb128 0x12
+	.uleb128 0xd
+	.byte	0
+	.uleb128 0x3
+	.uleb128 0xe
+	.uleb128 0x3a
+	.uleb128 0x21
+	.sleb128 3
+	.uleb128 0x3b
+	.uleb128 0x21
+	.sleb128 0
+	.uleb128 0x49
+	.uleb128 0x13
+	.uleb128 0x38
+	.uleb128 0xb
+	.byte	0
+	.byte	0
+	.uleb128 0x13
+	.uleb128 0x2e
+	.byte	0
+	.uleb128 0x3f
+	.uleb128 0x19
+	.uleb128 0x3
+	.uleb128 0xe
+	.uleb128 0x3a
+	.uleb128 0x21
+	.sleb128 16
+	.uleb128 0x3b
+	.uleb128 0xb
+	.uleb128 0x39
+	.uleb128 0x21
+	.sleb128 6
+	.uleb128 0x27
+	.uleb128 0x19
+	.uleb128 0x3c
+	.uleb128 0x19
+	.byte	0
+	.byte	0
+	.uleb128 0x14
+	.uleb128 0x1
+	.byte	0x1
+	.uleb128 0x49
+	.uleb128 0x13
+	.uleb128 0x1
+	.uleb128 0x13
+	.byte	0
+	.byte	0
+	.uleb128 0x15
+	.uleb128 0x21
+	.byte	0
+	.uleb128 0x49
+	.uleb128 0x13
+	.uleb128 0x2f
+	.uleb128 0xb
+	.byte	0
+	.byte	0
+	.uleb128 0x16
+	.uleb128 0xd
+	.byte	0
+	.uleb128 0x3
+	.uleb128 0x8
+	.uleb128 0x3a
+	.uleb128 0xb
+	.uleb128 0x3b
+	.uleb128 0xb
+	.uleb128 0x39
+	.uleb128 0xb
+	.uleb128 0x49
+	.uleb128 0x13
+	.uleb128 0x38
+	.uleb128 0xb
+	.byte	0
+	.byte	0
+	.uleb128 0x17
+	.uleb128 0xd
+	.byte	0
+	.uleb128 0x3
+	.uleb128 0x8
+	.uleb128 0x3a
+	.uleb128 0x21
+	.sleb128 14
+	.uleb128 0x3b
+	.uleb128 0x5
+	.uleb128 0x39
+	.uleb128 0xb
+	.uleb128 0x49
+	.uleb128 0x13
+	.byte	0
+	.byte	0
+	.uleb128 0x18
+	.uleb128 0x2e
+	.byte	0x1
+	.uleb128 0x3f
+	.uleb128 0x19
+	.uleb128 0x3
+	.uleb128 0xe
+	.uleb128 0x3a
+	.uleb128 0x21
+	.sleb128 16
+	.uleb128 0x3b
+	.uleb128 0xb
+	.uleb128 0x39
+	.uleb128 0x21
+	.sleb128 6
+	.uleb128 0x27
+	.uleb128 0x19
+	.uleb128 0x3c
+	.uleb128 0x19
+	.uleb128 0x1
+	.uleb128 0x13
+	.byte	0
+	.byte	0
+	.uleb128 0x19
+	.uleb128 0x26
+	.byte	0
+	.uleb128 0x49
+	.uleb128 0x13
+	.byte	0
+	.byte	0
+	.uleb128 0x1a
+	.uleb128 0xd
+	.byte	0
+	.uleb128 0x3
+	.uleb128 0x8
+	.uleb128 0x3a
+	.uleb128 0x21
+	.sleb128 8
+	.uleb128 0x3b
+	.uleb128 0xb
+	.uleb128 0x39
+	.uleb128 0xb
+	.uleb128 0x49
+	.uleb128 0x13
+	.byte	0
+	.byte	0
+	.uleb128 0x1b
+	.uleb128 0xd
+	.byte	0
+	.uleb128 0x3
+	.uleb128 0xe
+	.uleb128 0x3a
+	.uleb128 0x21
+	.sleb128 10
+	.uleb128 0x3b
+	.uleb128 0xb
+	.uleb128 0x39
+	.uleb128 0xb
+	.uleb128 0x49
+	.uleb128 0x13
+	.byte	0
+	.byte	0
+	.uleb128 0x1c
+	.uleb128 0x17
+	.byte	0x1
+	.uleb128 0xb
+	.uleb128 0xb
+	.uleb128 0x3a
+	.uleb128 0x21
+	.sleb128 14
+	.uleb128 0x3b
+	.uleb128 0x5
+	.uleb128 0x39
+	.uleb128 0x21
+	.sleb128 2
+	.uleb128 0x1
+	.uleb128 0x13
+	.byte	0
+	.byte	0
+	.uleb128 0x1d
+	.uleb128 0xd
+	.byte	0
+	.uleb128 0x3
+	.uleb128 0x8
+	.uleb128 0x3a
+	.uleb128 0x21
+	.sleb128 15
+	.uleb128 0x3b
+	.uleb128 0x21
+	.sleb128 20
+	.uleb128 0x39
+	.uleb128 0x5
+	.uleb128 0x49
+	.uleb128 0x13
+	.uleb128 0x38
+	.uleb128 0xb
+	.byte	0
+	.byte	0
+	.uleb128 0x1e
+	.uleb128 0x18
+	.byte	0
+	.byte	0
+	.byte	0
+	.uleb128 0x1f
+	.uleb128 0x34
+	.byte	0
+	.uleb128 0x3
+	.uleb128 0xe
+	.uleb128 0x3a
+	.uleb128 0x21
+	.sleb128 1
+	.uleb128 0x3b
+	.uleb128 0xb
+	.uleb128 0x39
+	.uleb128 0xb
+	.uleb128 0x49
+	.uleb128 0x13
+	.uleb128 0x2
+	.uleb128 0x18
+	.byte	0
+	.byte	0
+	.uleb128 0x20
+	.uleb128 0x11
+	.byte	0x1
+	.uleb128 0x25
+	.uleb128 0xe
+	.uleb128 0x13
+	.uleb128 0xb
+	.uleb128 0x3
+	.uleb128 0x1f
+	.uleb128 0x1b
+	.uleb128 0x1f
+	.uleb128 0x11
+	.uleb128 0x1
+	.uleb128 0x12
+	.uleb128 0x7
+	.uleb128 0x10
+	.uleb128 0x17
+	.byte	0
+	.byte	0
+	.uleb128 0x21
+	.uleb128 0x24
+	.byte	0
+	.uleb128 0xb
+	.uleb128 0xb
+	.uleb128 0x3e
+	.uleb128 0xb
+	.uleb128 0x3
+	.uleb128 0x8
+	.byte	0
+	.byte	0
+	.uleb128 0x22
+	.uleb128 0xf
+	.byte	0
+	.uleb128 0xb
+	.uleb128 0xb
+	.byte	0
+	.byte	0
+	.uleb128 0x23
+	.uleb128 0x13
+	.byte	0x1
+	.uleb128 0x3
+	.uleb128 0xe
+	.uleb128 0xb
+	.uleb128 0xb
+	.uleb128 0x3a
+	.uleb128 0xb
+	.uleb128 0x3b
+	.uleb128 0xb
+	.uleb128 0x1
+	.uleb128 0x13
+	.byte	0
+	.byte	0
+	.uleb128 0x24
+	.uleb128 0x16
+	.byte	0
+	.uleb128 0x3
+	.uleb128 0xe
+	.uleb128 0x3a
+	.uleb128 0xb
+	.uleb128 0x3b
+	.uleb128 0xb
+	.uleb128 0x39
+	.uleb128 0xb
+	.byte	0
+	.byte	0
+	.uleb128 0x25
+	.uleb128 0x17
+	.byte	0x1
+	.uleb128 0xb
+	.uleb128 0xb
+	.uleb128 0x3a
+	.uleb128 0xb
+	.uleb128 0x3b
+	.uleb128 0xb
+	.uleb128 0x39
+	.uleb128 0xb
+	.uleb128 0x1
+	.uleb128 0x13
+	.byte	0
+	.byte	0
+	.uleb128 0x26
+	.uleb128 0x17
+	.byte	0x1
+	.uleb128 0x3
+	.uleb128 0xe
+	.uleb128 0xb
+	.uleb128 0xb
+	.uleb128 0x3a
+	.uleb128 0xb
+	.uleb128 0x3b
+	.uleb128 0xb
+	.uleb128 0x39
+	.uleb128 0xb
+	.uleb128 0x1
+	.uleb128 0x13
+	.byte	0
+	.byte	0
+	.uleb128 0x27
+	.uleb128 0x16
+	.byte	0
+	.uleb128 0x3
+	.uleb128 0x8
+	.uleb128 0x3a
+	.uleb128 0xb
+	.uleb128 0x3b
+	.uleb128 0xb
+	.uleb128 0x39
+	.uleb128 0xb
+	.uleb128 0x49
+	.uleb128 0x13
+	.byte	0
+	.byte	0
+	.uleb128 0x28
+	.uleb128 0x13
+	.byte	0x1
+	.uleb128 0x3
+	.uleb128 0x8
+	.uleb128 0xb
+	.uleb128 0xb
+	.uleb128 0x3a
+	.uleb128 0xb
+	.uleb128 0x3b
+	.uleb128 0xb
+	.uleb128 0x39
+	.uleb128 0xb
+	.uleb128 0x1
+	.uleb128 0x13
+	.byte	0
+	.byte	0
+	.uleb128 0x29
+	.uleb128 0x17
+	.byte	0x1
+	.uleb128 0x3
+	.uleb128 0xe
+	.uleb128 0xb
+	.uleb128 0xb
+	.uleb128 0x3a
+	.uleb128 0xb
+	.uleb128 0x3b
+	.uleb128 0x5
+	.uleb128 0x39
+	.uleb128 0xb
+	.uleb128 0x1
+	.uleb128 0x13
+	.byte	0
+	.byte	0
+	.uleb128 0x2a
+	.uleb128 0x17
+	.byte	0
+	.uleb128 0x3
+	.uleb128 0xe
+	.uleb128 0x3c
+	.uleb128 0x19
+	.byte	0
+	.byte	0
+	.uleb128 0x2b
+	.uleb128 0x4
+	.byte	0x1
+	.uleb128 0x3
+	.uleb128 0xe
+	.uleb128 0x3e
+	.uleb128 0xb
+	.uleb128 0xb
+	.uleb128 0xb
+	.uleb128 0x49
+	.uleb128 0x13
+	.uleb128 0x3a
+	.uleb128 0xb
+	.uleb128 0x3b
+	.uleb128 0xb
+	.uleb128 0x39
+	.uleb128 0xb
+	.uleb128 0x1
+	.uleb128 0x13
+	.byte	0
+	.byte	0
+	.uleb128 0x2c
+	.uleb128 0x13
+	.byte	0x1
+	.uleb128 0x3
+	.uleb128 0xe
+	.uleb128 0xb
+	.uleb128 0x5
+	.uleb128 0x3a
+	.uleb128 0xb
+	.uleb128 0x3b
+	.uleb128 0xb
+	.uleb128 0x39
+	.uleb128 0xb
+	.uleb128 0x1
+	.uleb128 0x13
+	.byte	0
+	.byte	0
+	.uleb128 0x2d
+	.uleb128 0x34
+	.byte	0
+	.uleb128 0x3
+	.uleb128 0xe
+	.uleb128 0x3a
+	.uleb128 0xb
+	.uleb128 0x3b
+	.uleb128 0xb
+	.uleb128 0x39
+	.uleb128 0x5
+	.uleb128 0x49
+	.uleb128 0x13
+	.uleb128 0x3f
+	.uleb128 0x19
+	.uleb128 0x3c
+	.uleb128 0x19
+	.byte	0
+	.byte	0
+	.uleb128 0x2e
+	.uleb128 0x2e
+	.byte	0x1
+	.uleb128 0x3f
+	.uleb128 0x19
+	.uleb128 0x3
+	.uleb128 0xe
+	.uleb128 0x3a
+	.uleb128 0xb
+	.uleb128 0x3b
+	.uleb128 0x5
+	.uleb128 0x39
+	.uleb128 0xb
+	.uleb128 0x27
+	.uleb128 0x19
+	.uleb128 0x49
+	.uleb128 0x13
+	.uleb128 0x3c
+	.uleb128 0x19
+	.uleb128 0x1
+	.uleb128 0x13
+	.byte	0
+	.byte	0
+	.uleb128 0x2f
+	.uleb128 0x2e
+	.byte	0x1
+	.uleb128 0x3f
+	.uleb128 0x19
+	.uleb128 0x3
+	.uleb128 0xe
+	.uleb128 0x3a
+	.uleb128 0xb
+	.uleb128 0x3b
+	.uleb128 0xb
+	.uleb128 0x39
+	.uleb128 0xb
+	.uleb128 0x27
+	.uleb128 0x19
+	.uleb128 0x49
+	.uleb128 0x13
+	.uleb128 0x3c
+	.uleb128 0x19
+	.uleb128 0x1
+	.uleb128 0x13
+	.byte	0
+	.byte	0
+	.uleb128 0x30
+	.uleb128 0x15
+	.byte	0
+	.uleb128 0x27
+	.uleb128 0x19
+	.byte	0
+	.byte	0
+	.uleb128 0x31
+	.uleb128 0x2e
+	.byte	0x1
+	.uleb128 0x3
+	.uleb128 0xe
+	.uleb128 0x3a
+	.uleb128 0xb
+	.uleb128 0x3b
+	.uleb128 0xb
+	.uleb128 0x39
+	.uleb128 0xb
+	.uleb128 0x27
+	.uleb128 0x19
+	.uleb128 0x11
+	.uleb128 0x1
+	.uleb128 0x12
+	.uleb128 0x7
+	.uleb128 0x40
+	.uleb128 0x18
+	.uleb128 0x7c
+	.uleb128 0x19
+	.uleb128 0x1
+	.uleb128 0x13
+	.byte	0
+	.byte	0
+	.uleb128 0x32
+	.uleb128 0x2e
+	.byte	0
+	.uleb128 0x3f
+	.uleb128 0x19
+	.uleb128 0x3
+	.uleb128 0xe
+	.uleb128 0x3a
+	.uleb128 0xb
+	.uleb128 0x3b
+	.uleb128 0xb
+	.uleb128 0x39
+	.uleb128 0xb
+	.uleb128 0x11
+	.uleb128 0x1
+	.uleb128 0x12
+	.uleb128 0x7
+	.uleb128 0x40
+	.uleb128 0x18
+	.uleb128 0x7c
+	.uleb128 0x19
+	.byte	0
+	.byte	0
+	.byte	0
+	.section	.debug_aranges,"",@progbits
+	.long	0x2c
+	.value	0x2
+	.long	.Ldebug_info0
+	.byte	0x8
+	.byte	0
+	.value	0
+	.value	0
+	.quad	.Ltext0
+	.quad	.Letext0-.Ltext0
+	.quad	0
+	.quad	0
+	.section	.debug_line,"",@progbits
+.Ldebug_line0:
+	.section	.debug_str,"MS",@progbits,1
+.LASF158:
+	.string	"abSequence"
+.LASF249:
+	.string	"AB_Return"
+.LASF201:
+	.string	"AB_CoerceTo"
+.LASF130:
+	.string	"abHide"
+.LASF196:
+	.string	"AB_Apply"
+.LASF347:
+	.string	"testAIntEqual"
+.LASF38:
+	.string	"_shortbuf"
+.LASF359:
+	.string	"_IO_lock_t"
+.LASF59:
+	.string	"String"
+.LASF231:
+	.string	"AB_Let"
+.LASF237:
+	.string	"AB_Not"
+.LASF14:
+	.string	"gp_offset"
+.LASF178:
+	.string	"SymeList"
+.LASF204:
+	.string	"AB_Declare"
+.LASF27:
+	.string	"_IO_buf_end"
+.LASF335:
+	.string	"NConcat"
+.LASF294:
+	.string	"property"
+.LASF236:
+	.string	"AB_Never"
+.LASF111:
+	.string	"abComma"
+.LASF170:
+	.string	"tposs"
+.LASF166:
+	.string	"syme"
+.LASF353:
+	.string	"showTest"
+.LASF269:
+	.string	"self"
+.LASF243:
+	.string	"AB_Qualify"
+.LASF352:
+	.string	"fini"
+.LASF214:
+	.string	"AB_Extend"
+.LASF307:
+	.string	"String_listOpsStruct"
+.LASF56:
+	.string	"Bool"
+.LASF131:
+	.string	"abHook"
+.LASF281:
+	.string	"label"
+.LASF202:
+	.string	"AB_Collect"
+.LASF25:
+	.string	"_IO_write_end"
+.LASF4:
+	.string	"unsigned int"
+.LASF282:
+	.string	"what"
+.LASF43:
+	.string	"_freeres_list"
+.LASF317:
+	.string	"FreeTo"
+.LASF270:
+	.string	"AbSeman"
+.LASF19:
+	.string	"_flags"
+.LASF83:
+	.string	"symbol"
+.LASF245:
+	.string	"AB_Raise"
+.LASF155:
+	.string	"abRetractTo"
+.LASF301:
+	.string	"alternatives"
+.LASF280:
+	.string	"test"
+.LASF85:
+	.string	"hasCorpus"
+.LASF53:
+	.string	"UByte"
+.LASF35:
+	.string	"_old_offset"
+.LASF31:
+	.string	"_markers"
+.LASF263:
+	.string	"comment"
+.LASF114:
+	.string	"abDDefine"
+.LASF101:
+	.string	"abAdd"
+.LASF341:
+	.string	"NRemove"
+.LASF272:
+	.string	"unique"
+.LASF194:
+	.string	"AB_Add"
+.LASF246:
+	.string	"AB_Reference"
+.LASF44:
+	.string	"_freeres_buf"
+.LASF304:
+	.string	"within"
+.LASF135:
+	.string	"abIterate"
+.LASF251:
+	.string	"AB_Sequence"
+.LASF113:
+	.string	"abDefine"
+.LASF259:
+	.string	"AB_NODE_LIMIT"
+.LASF139:
+	.string	"abLocal"
+.LASF67:
+	.string	"OstWriteCharFn"
+.LASF106:
+	.string	"abBreak"
+.LASF303:
+	.string	"always"
+.LASF122:
+	.string	"abFluid"
+.LASF321:
+	.string	"Drop"
+.LASF161:
+	.string	"abWhere"
+.LASF179:
+	.string	"AB_START"
+.LASF141:
+	.string	"abMDefine"
+.LASF30:
+	.string	"_IO_save_end"
+.LASF103:
+	.string	"abApply"
+.LASF187:
+	.string	"AB_DOC_LIMIT"
+.LASF12:
+	.string	"float"
+.LASF76:
+	.string	"SrcPosCell"
+.LASF254:
+	.string	"AB_Unit"
+.LASF211:
+	.string	"AB_Except"
+.LASF278:
+	.string	"base"
+.LASF293:
+	.string	"count"
+.LASF189:
+	.string	"AB_LitInteger"
+.LASF267:
+	.string	"embed"
+.LASF16:
+	.string	"overflow_arg_area"
+.LASF110:
+	.string	"abCollect"
+.LASF247:
+	.string	"AB_Repeat"
+.LASF152:
+	.string	"abReference"
+.LASF329:
+	.string	"CopyDeeply"
+.LASF186:
+	.string	"AB_DocText"
+.LASF75:
+	.string	"SrcPos"
+.LASF87:
+	.string	"lines"
+.LASF222:
+	.string	"AB_Goto"
+.LASF90:
+	.string	"sposStack"
+.LASF279:
+	.string	"capsule"
+.LASF300:
+	.string	"testPart"
+.LASF29:
+	.string	"_IO_backup_base"
+.LASF230:
+	.string	"AB_Lambda"
+.LASF40:
+	.string	"_offset"
+.LASF264:
+	.string	"stab"
+.LASF98:
+	.string	"abLitInteger"
+.LASF248:
+	.string	"AB_RestrictTo"
+.LASF95:
+	.string	"abId"
+.LASF191:
+	.string	"AB_LitString"
+.LASF159:
+	.string	"abTest"
+.LASF287:
+	.string	"value"
+.LASF33:
+	.string	"_fileno"
+.LASF255:
+	.string	"AB_Where"
+.LASF45:
+	.string	"__pad5"
+.LASF61:
+	.string	"MostAlignedType"
+.LASF69:
+	.string	"OstCloseFn"
+.LASF26:
+	.string	"_IO_buf_base"
+.LASF208:
+	.string	"AB_Delay"
+.LASF336:
+	.string	"Memq"
+.LASF57:
+	.string	"Length"
+.LASF62:
+	.string	"OStreamPutFun"
+.LASF238:
+	.string	"AB_Nothing"
+.LASF18:
+	.string	"size_t"
+.LASF258:
+	.string	"AB_Yield"
+.LASF37:
+	.string	"_vtable_offset"
+.LASF302:
+	.string	"cond"
+.LASF322:
+	.string	"LastCons"
+.LASF241:
+	.string	"AB_PLambda"
+.LASF332:
+	.string	"Reverse"
+.LASF154:
+	.string	"abRestrictTo"
+.LASF22:
+	.string	"_IO_read_base"
+.LASF295:
+	.string	"thenAlt"
+.LASF288:
+	.string	"origin"
+.LASF55:
+	.string	"AInt"
+.LASF239:
+	.string	"AB_Or"
+.LASF125:
+	.string	"abForeignExport"
+.LASF266:
+	.string	"implicit"
+.LASF296:
+	.string	"elseAlt"
+.LASF49:
+	.string	"_IO_marker"
+.LASF356:
+	.string	"code"
+.LASF175:
+	.string	"first"
+.LASF309:
+	.string	"Singleton"
+.LASF226:
+	.string	"AB_Import"
+.LASF344:
+	.string	"GPrint"
+.LASF157:
+	.string	"abSelect"
+.LASF364:
+	.string	"abnormTest"
+.LASF206:
+	.string	"AB_Define"
+.LASF315:
+	.string	"FreeCons"
+.LASF277:
+	.string	"argv"
+.LASF311:
+	.string	"Listv"
+.LASF108:
+	.string	"abDeclare"
+.LASF162:
+	.string	"abWhile"
+.LASF99:
+	.string	"abLitString"
+.LASF224:
+	.string	"AB_Hide"
+.LASF210:
+	.string	"AB_Documented"
+.LASF233:
+	.string	"AB_Macro"
+.LASF340:
+	.string	"Position"
+.LASF339:
+	.string	"Posq"
+.LASF150:
+	.string	"abQualify"
+.LASF190:
+	.string	"AB_LitFloat"
+.LASF11:
+	.string	"char"
+.LASF105:
+	.string	"abAssign"
+.LASF46:
+	.string	"_mode"
+.LASF60:
+	.string	"CString"
+.LASF286:
+	.string	"except"
+.LASF244:
+	.string	"AB_Quote"
+.LASF312:
+	.string	"ListNull"
+.LASF355:
+	.string	"text"
+.LASF20:
+	.string	"_IO_read_ptr"
+.LASF318:
+	.string	"FreeDeeply"
+.LASF126:
+	.string	"abFree"
+.LASF66:
+	.string	"data"
+.LASF52:
+	.string	"long long int"
+.LASF116:
+	.string	"abDocumented"
+.LASF240:
+	.string	"AB_Paren"
+.LASF96:
+	.string	"abIdSy"
+.LASF121:
+	.string	"abFix"
+.LASF200:
+	.string	"AB_Builtin"
+.LASF349:
+	.string	"abqParseLinesAsSeq"
+.LASF260:
+	.string	"AB_LIMIT"
+.LASF134:
+	.string	"abInline"
+.LASF109:
+	.string	"abCoerceTo"
+.LASF215:
+	.string	"AB_Fix"
+.LASF261:
+	.string	"AbEmbed"
+.LASF298:
+	.string	"rtype"
+.LASF23:
+	.string	"_IO_write_base"
+.LASF73:
+	.string	"closeFn"
+.LASF119:
+	.string	"abExport"
+.LASF229:
+	.string	"AB_Label"
+.LASF219:
+	.string	"AB_ForeignExport"
+.LASF28:
+	.string	"_IO_save_base"
+.LASF80:
+	.string	"SrcPosStack"
+.LASF326:
+	.string	"IsLonger"
+.LASF256:
+	.string	"AB_While"
+.LASF188:
+	.string	"AB_STR_START"
+.LASF68:
+	.string	"OstWriteStringFn"
+.LASF74:
+	.string	"OStreamOps"
+.LASF118:
+	.string	"abExit"
+.LASF169:
+	.string	"TPoss"
+.LASF54:
+	.string	"ULong"
+.LASF183:
+	.string	"AB_Blank"
+.LASF177:
+	.string	"SymeListCons"
+.LASF182:
+	.string	"AB_IdSy"
+.LASF180:
+	.string	"AB_SYM_START"
+.LASF112:
+	.string	"abDefault"
+.LASF104:
+	.string	"abAssert"
+.LASF151:
+	.string	"abRaise"
+.LASF120:
+	.string	"abExtend"
+.LASF199:
+	.string	"AB_Break"
+.LASF143:
+	.string	"abNever"
+.LASF181:
+	.string	"AB_Id"
+.LASF297:
+	.string	"param"
+.LASF138:
+	.string	"abLet"
+.LASF145:
+	.string	"abNothing"
+.LASF363:
+	.string	"testDocco"
+.LASF84:
+	.string	"info"
+.LASF334:
+	.string	"Concat"
+.LASF93:
+	.string	"abGen"
+.LASF291:
+	.string	"whole"
+.LASF331:
+	.string	"NMap"
+.LASF205:
+	.string	"AB_Default"
+.LASF203:
+	.string	"AB_Comma"
+.LASF328:
+	.string	"CopyTo"
+.LASF160:
+	.string	"abTry"
+.LASF274:
+	.string	"argc"
+.LASF97:
+	.string	"abDocText"
+.LASF346:
+	.string	"testStringEqual"
+.LASF253:
+	.string	"AB_Try"
+.LASF333:
+	.string	"NReverse"
+.LASF78:
+	.string	"spos"
+.LASF174:
+	.string	"StabLevelListCons"
+.LASF209:
+	.string	"AB_Do"
+.LASF235:
+	.string	"AB_MLambda"
+.LASF72:
+	.string	"writeStringFn"
+.LASF124:
+	.string	"abForeignImport"
+.LASF63:
+	.string	"OStream"
+.LASF306:
+	.string	"StringList"
+.LASF144:
+	.string	"abNot"
+.LASF91:
+	.string	"abSyn"
+.LASF314:
+	.string	"Find"
+.LASF345:
+	.string	"Format"
+.LASF163:
+	.string	"abWith"
+.LASF338:
+	.string	"ContainsAllq"
+.LASF361:
+	.string	"abSynTag"
+.LASF7:
+	.string	"short int"
+.LASF156:
+	.string	"abReturn"
+.LASF167:
+	.string	"TForm"
+.LASF164:
+	.string	"abYield"
+.LASF8:
+	.string	"long int"
+.LASF89:
+	.string	"AbSyn"
+.LASF77:
+	.string	"sposCell"
+.LASF86:
+	.string	"hash"
+.LASF146:
+	.string	"abOr"
+.LASF165:
+	.string	"Syme"
+.LASF64:
+	.string	"_IO_FILE"
+.LASF250:
+	.string	"AB_Select"
+.LASF232:
+	.string	"AB_Local"
+.LASF51:
+	.string	"_IO_wide_data"
+.LASF171:
+	.string	"StabLevel"
+.LASF82:
+	.string	"Symbol"
+.LASF327:
+	.string	"Copy"
+.LASF129:
+	.string	"abHas"
+.LASF310:
+	.string	"List"
+.LASF358:
+	.string	"__va_list_tag"
+.LASF216:
+	.string	"AB_Fluid"
+.LASF88:
+	.string	"corpus"
+.LASF252:
+	.string	"AB_Test"
+.LASF223:
+	.string	"AB_Has"
+.LASF198:
+	.string	"AB_Assign"
+.LASF275:
+	.string	"seman"
+.LASF15:
+	.string	"fp_offset"
+.LASF192:
+	.string	"AB_STR_LIMIT"
+.LASF149:
+	.string	"abPretendTo"
+.LASF81:
+	.string	"stack"
+.LASF5:
+	.string	"long unsigned int"
+.LASF176:
+	.string	"SImpl"
+.LASF207:
+	.string	"AB_DDefine"
+.LASF42:
+	.string	"_wide_data"
+.LASF257:
+	.string	"AB_With"
+.LASF323:
+	.string	"_Length"
+.LASF133:
+	.string	"abImport"
+.LASF354:
+	.string	"init"
+.LASF39:
+	.string	"_lock"
+.LASF102:
+	.string	"abAnd"
+.LASF320:
+	.string	"FreeIfSat"
+.LASF218:
+	.string	"AB_ForeignImport"
+.LASF50:
+	.string	"_IO_codecvt"
+.LASF227:
+	.string	"AB_Inline"
+.LASF195:
+	.string	"AB_And"
+.LASF348:
+	.string	"abDefineeId"
+.LASF342:
+	.string	"FillVector"
+.LASF17:
+	.string	"reg_save_area"
+.LASF228:
+	.string	"AB_Iterate"
+.LASF184:
+	.string	"AB_SYM_LIMIT"
+.LASF325:
+	.string	"IsShorter"
+.LASF107:
+	.string	"abBuiltin"
+.LASF284:
+	.string	"body"
+.LASF337:
+	.string	"Member"
+.LASF128:
+	.string	"abGoto"
+.LASF213:
+	.string	"AB_Export"
+.LASF343:
+	.string	"Print"
+.LASF276:
+	.string	"type"
+.LASF2:
+	.string	"unsigned char"
+.LASF268:
+	.string	"impl"
+.LASF290:
+	.string	"function"
+.LASF330:
+	.string	"CopyDeeplyTo"
+.LASF123:
+	.string	"abFor"
+.LASF24:
+	.string	"_IO_write_ptr"
+.LASF234:
+	.string	"AB_MDefine"
+.LASF127:
+	.string	"abGenerate"
+.LASF217:
+	.string	"AB_For"
+.LASF299:
+	.string	"context"
+.LASF100:
+	.string	"abLitFloat"
+.LASF140:
+	.string	"abMacro"
+.LASF65:
+	.string	"ostream"
+.LASF360:
+	.string	"_SImpl"
+.LASF271:
+	.string	"poss"
+.LASF132:
+	.string	"abIf"
+.LASF273:
+	.string	"state"
+.LASF357:
+	.string	"GNU C99 12.2.0 -mtune=generic -march=x86-64 -g -O0 -std=c99 -fasynchronous-unwind-tables"
+.LASF71:
+	.string	"writeCharFn"
+.LASF168:
+	.string	"tform"
+.LASF220:
+	.string	"AB_Free"
+.LASF197:
+	.string	"AB_Assert"
+.LASF41:
+	.string	"_codecvt"
+.LASF58:
+	.string	"Pointer"
+.LASF350:
+	.string	"finiFile"
+.LASF242:
+	.string	"AB_PretendTo"
+.LASF283:
+	.string	"expr"
+.LASF193:
+	.string	"AB_NODE_START"
+.LASF316:
+	.string	"Free"
+.LASF172:
+	.string	"stabLevel"
+.LASF9:
+	.string	"__off_t"
+.LASF351:
+	.string	"initFile"
+.LASF289:
+	.string	"destination"
+.LASF6:
+	.string	"signed char"
+.LASF147:
+	.string	"abParen"
+.LASF153:
+	.string	"abRepeat"
+.LASF92:
+	.string	"abHdr"
+.LASF3:
+	.string	"short unsigned int"
+.LASF265:
+	.string	"defnIdx"
+.LASF173:
+	.string	"Stab"
+.LASF305:
+	.string	"StringListCons"
+.LASF262:
+	.string	"abSeman"
+.LASF21:
+	.string	"_IO_read_end"
+.LASF70:
+	.string	"ostreamOps"
+.LASF308:
+	.string	"Cons"
+.LASF285:
+	.string	"iterv"
+.LASF13:
+	.string	"double"
+.LASF137:
+	.string	"abLambda"
+.LASF185:
+	.string	"AB_DOC_START"
+.LASF79:
+	.string	"rest"
+.LASF225:
+	.string	"AB_If"
+.LASF32:
+	.string	"_chain"
+.LASF148:
+	.string	"abPLambda"
+.LASF319:
+	.string	"FreeDeeplyTo"
+.LASF136:
+	.string	"abLabel"
+.LASF212:
+	.string	"AB_Exit"
+.LASF48:
+	.string	"FILE"
+.LASF34:
+	.string	"_flags2"
+.LASF324:
+	.string	"IsLength"
+.LASF115:
+	.string	"abDo"
+.LASF36:
+	.string	"_cur_column"
+.LASF313:
+	.string	"Equal"
+.LASF292:
+	.string	"dest"
+.LASF117:
+	.string	"abExcept"
+.LASF94:
+	.string	"abBlank"
+.LASF362:
+	.string	"String_listPointer"
+.LASF221:
+	.string	"AB_Generate"
+.LASF10:
+	.string	"__off64_t"
+.LASF142:
+	.string	"abMLambda"
+.LASF47:
+	.string	"_unused2"
+	.section	.debug_line_str,"MS",@progbits,1
+.LASF0:
+	.string	"test/test_abnorm.c"
+.LASF1:
+	.string	"/repo/aldor/aldor/src"
+	.ident	"GCC: (Debian 12.2.0-14+deb12u1) 12.2.0"
+	.section	.note.GNU-stack,"",@progbits
